@@ -13,7 +13,8 @@
      6  theorems on resolved code: stmts_lowering_correct, body_lowering_correct (implicit return),
         the divergence corollary; label freshness; satisfiability examples *)
 From Coq Require Import ZArith List Bool Lia.
-From HidV Require Import Machine Halts VM Driver WordLemmas MemLemmas GenTables OpTables Idioms
+From HidV Require Import Machine Halts VM Driver WordLemmas MemLemmas GenTables GenStdlib OpTables Idioms
+                         Guards StepTactics StdlibBase StdlibStubs DecimalSpec StdlibInt StdlibBool CallProtocol
                          LowerBoolModel LowerBoolProofs LowerStmtModel.
 Import ListNotations.
 Open Scope Z_scope.
@@ -35,8 +36,19 @@ Fixpoint upd (i : nat) (v : Z) (l : list Z) : list Z :=
 Definition trunc (s0 s : store) : store :=
   mkstore (firstn (length (si s0)) (si s)) (firstn (length (sb s0)) (sb s)).
 
+(* how a run of a statement list can end.  Faults are the run-time checks of a checked build. *)
+Inductive fault := FDivZero | FStackOverflow.
+Inductive outcome := ONormal | OBreak | OContinue | OReturn (v : option Z) | OFault (f : fault).
+(* how a call ends *)
+Inductive cres := CRet (v : option Z) | CFault (f : fault).
+(* outcomes that leave the enclosing function *)
+Definition leaves (out : outcome) : Prop := match out with OReturn _ | OFault _ => True | _ => False end.
+Lemma outcome_normal_dec (out : outcome) : {out = ONormal} + {out <> ONormal}.
+Proof. destruct out; [left; reflexivity | right; discriminate ..]. Qed.
+
 Section Source.
 Variable w : Z.
+Variable funs : list fundef.           (* the program: function 0 is the entry point *)
 (* two's-complement wrap-around of the word size *)
 Definition swrap (v : Z) : Z := Machine.sgn w (Machine.wrap w v).
 Fixpoint ieval (s : store) (o : iopd) : Z :=
@@ -59,41 +71,88 @@ Fixpoint bevals (s : store) (e : bexpr) : bool :=
 Definition wbyte (s : store) (x : wexpr) : Z :=
   match x with WrLit z => z mod 256 | WrChar c => c mod 256 | WrByte o => ieval s o mod 256 end.
 
-Inductive outcome := ONormal | OBreak | OContinue.
+(* STACK ACCOUNTING.  The checked build guards every function entry: the function faults with
+   stack_overflow unless the bytes between its frame pointer and the bottom of the stack are at
+   least its frame size `fun_need` (the constant of its guard).  The semantics carries d, the
+   number of bytes available to the current frame; the frame in use is the return address and the
+   locals in scope. *)
+Definition frame_top (s : store) : Z := w * (1 + Z.of_nat (length (si s))) + Z.of_nat (length (sb s)).
+(* what a call leaves in the caller's store *)
+Definition dest_store (dst : dest) (v : option Z) (s s' : store) : Prop :=
+  match dst with
+  | DNone => s' = s
+  | DDecl => exists x, v = Some x /\ s' = mkstore (si s ++ [x]) (sb s)
+  | DAssign i => exists x, v = Some x /\ (i < length (si s))%nat /\ s' = mkstore (upd i x (si s)) (sb s)
+  end.
 
-(* exec s σ out_bytes outcome σ' *)
-Inductive exec : stmt -> store -> list Z -> outcome -> store -> Prop :=
-| X_decli o s : exec (SDeclI o) s [] ONormal (mkstore (si s ++ [ieval s o]) (sb s))
-| X_assi i o s : (i < length (si s))%nat ->
-    exec (SAssignI i o) s [] ONormal (mkstore (upd i (ieval s o) (si s)) (sb s))
-| X_declb e s : exec (SDeclB e) s [] ONormal (mkstore (si s) (sb s ++ [b2z (bevals s e)]))
-| X_assb j e s : (j < length (sb s))%nat ->
-    exec (SAssignB j e) s [] ONormal (mkstore (si s) (upd j (b2z (bevals s e)) (sb s)))
-| X_write x s : exec (SWrite x) s [wbyte s x] ONormal s
-| X_writeln s : exec SWriteln s [10] ONormal s
-| X_if c s1 s2 s evs out s' :
-    execs (if bevals s c then s1 else s2) s evs out s' -> exec (SIf c s1 s2) s evs out (trunc s s')
-| X_while_false c b k s : bevals s c = false -> exec (SWhile c b k) s [] ONormal s
-| X_while_break c b k s evs s1 : bevals s c = true ->
-    execs b s evs OBreak s1 -> exec (SWhile c b k) s evs ONormal (trunc s s1)
-| X_while_next c b k s e1 out1 s1 e2 s2 e3 s3 : bevals s c = true ->
-    execs b s e1 out1 s1 -> out1 <> OBreak ->                          (* the body completes or continues *)
-    execs k (trunc s s1) e2 ONormal s2 ->                             (* the continuation of a `for` *)
-    exec (SWhile c b k) (trunc s s2) e3 ONormal s3 ->
-    exec (SWhile c b k) s (e1 ++ e2 ++ e3) ONormal s3
-| X_block ss s evs out s' : execs ss s evs out s' -> exec (SBlock ss) s evs out (trunc s s')
-| X_break s : exec SBreak s [] OBreak s
-| X_continue s : exec SContinue s [] OContinue s
-with execs : stmts -> store -> list Z -> outcome -> store -> Prop :=
-| XS_nil s : execs SNil s [] ONormal s
-| XS_cons s r s0 e1 s1 e2 out s2 :
-    exec s s0 e1 ONormal s1 -> execs r s1 e2 out s2 -> execs (SCons s r) s0 (e1 ++ e2) out s2
-| XS_exit s r s0 e1 out s1 :
-    exec s s0 e1 out s1 -> out <> ONormal -> execs (SCons s r) s0 e1 out s1.
+(* exec d s σ out_bytes outcome σ' *)
+Inductive exec : Z -> stmt -> store -> list Z -> outcome -> store -> Prop :=
+| X_decli d o s : exec d (SDeclI o) s [] ONormal (mkstore (si s ++ [ieval s o]) (sb s))
+| X_assi d i o s : (i < length (si s))%nat ->
+    exec d (SAssignI i o) s [] ONormal (mkstore (upd i (ieval s o) (si s)) (sb s))
+| X_declb d e s : exec d (SDeclB e) s [] ONormal (mkstore (si s) (sb s ++ [b2z (bevals s e)]))
+| X_assb d j e s : (j < length (sb s))%nat ->
+    exec d (SAssignB j e) s [] ONormal (mkstore (si s) (upd j (b2z (bevals s e)) (sb s)))
+| X_write d x s : exec d (SWrite x) s [wbyte s x] ONormal s
+| X_writeln d s : exec d SWriteln s [10] ONormal s
+| X_writei d ln o s :                                 (* the decimal representation of the value *)
+    exec d (SWriteI ln o) s (decimal (ieval s o) ++ (if ln then [10] else [])) ONormal s
+| X_writeb d ln e s :                                 (* "true" / "false" *)
+    exec d (SWriteB ln e) s ((if bevals s e then str_true else str_false) ++ (if ln then [10] else [])) ONormal s
+| X_if d c s1 s2 s evs out s' :
+    execs d (if bevals s c then s1 else s2) s evs out s' -> exec d (SIf c s1 s2) s evs out (trunc s s')
+| X_while_false d c b k s : bevals s c = false -> exec d (SWhile c b k) s [] ONormal s
+| X_while_break d c b k s evs s1 : bevals s c = true ->
+    execs d b s evs OBreak s1 -> exec d (SWhile c b k) s evs ONormal (trunc s s1)
+| X_while_leave d c b k s evs out s1 : bevals s c = true ->          (* the body returns or faults *)
+    execs d b s evs out s1 -> leaves out -> exec d (SWhile c b k) s evs out (trunc s s1)
+| X_while_cont_exit d c b k s e1 out1 s1 e2 out2 s2 : bevals s c = true ->
+    execs d b s e1 out1 s1 -> out1 = ONormal \/ out1 = OContinue ->
+    execs d k (trunc s s1) e2 out2 s2 -> out2 <> ONormal ->          (* the continuation does not complete *)
+    exec d (SWhile c b k) s (e1 ++ e2) out2 (trunc s s2)
+| X_while_next d c b k s e1 out1 s1 e2 s2 e3 out3 s3 : bevals s c = true ->
+    execs d b s e1 out1 s1 -> out1 = ONormal \/ out1 = OContinue ->  (* the body completes or continues *)
+    execs d k (trunc s s1) e2 ONormal s2 ->                          (* the continuation of a `for` *)
+    exec d (SWhile c b k) (trunc s s2) e3 out3 s3 ->
+    exec d (SWhile c b k) s (e1 ++ e2 ++ e3) out3 s3
+| X_block d ss s evs out s' : execs d ss s evs out s' -> exec d (SBlock ss) s evs out (trunc s s')
+| X_break d s : exec d SBreak s [] OBreak s
+| X_continue d s : exec d SContinue s [] OContinue s
+(* division in a checked build: a zero divisor is the fault division_by_zero *)
+| X_decldiv d op a b s : ieval s b <> 0 ->
+    exec d (SDeclDiv op a b) s [] ONormal (mkstore (si s ++ [swrap (arith_sem op (ieval s a) (ieval s b))]) (sb s))
+| X_decldiv_fault d op a b s : ieval s b = 0 -> exec d (SDeclDiv op a b) s [] (OFault FDivZero) s
+| X_assdiv d i op a b s : (i < length (si s))%nat -> ieval s b <> 0 ->
+    exec d (SAssignDiv i op a b) s [] ONormal (mkstore (upd i (swrap (arith_sem op (ieval s a) (ieval s b))) (si s)) (sb s))
+| X_assdiv_fault d i op a b s : ieval s b = 0 -> exec d (SAssignDiv i op a b) s [] (OFault FDivZero) s
+(* calls: the arguments are evaluated left to right in the caller's store *)
+| X_call d dst f args s evs v s' :
+    callf (d - frame_top s) f (map (ieval s) args) evs (CRet v) -> dest_store dst v s s' ->
+    exec d (SCall dst f args) s evs ONormal s'
+| X_call_fault d dst f args s evs ft :
+    callf (d - frame_top s) f (map (ieval s) args) evs (CFault ft) ->
+    exec d (SCall dst f args) s evs (OFault ft) s
+| X_return d s : exec d (SReturn None) s [] (OReturn None) s
+| X_return_val d o s : exec d (SReturn (Some o)) s [] (OReturn (Some (ieval s o))) s
+with execs : Z -> stmts -> store -> list Z -> outcome -> store -> Prop :=
+| XS_nil d s : execs d SNil s [] ONormal s
+| XS_cons d s r s0 e1 s1 e2 out s2 :
+    exec d s s0 e1 ONormal s1 -> execs d r s1 e2 out s2 -> execs d (SCons s r) s0 (e1 ++ e2) out s2
+| XS_exit d s r s0 e1 out s1 :
+    exec d s s0 e1 out s1 -> out <> ONormal -> execs d (SCons s r) s0 e1 out s1
+(* callf d f args events result: function f called with d bytes below its frame pointer *)
+with callf : Z -> nat -> list Z -> list Z -> cres -> Prop :=
+| CF_overflow d f vs fd : nth_error funs f = Some fd -> d < fun_need w fd ->
+    callf d f vs [] (CFault FStackOverflow)
+| CF_return d f vs fd evs v s1 : nth_error funs f = Some fd -> fun_need w fd <= d ->
+    execs d (fn_body fd) (mkstore vs []) evs (OReturn v) s1 -> callf d f vs evs (CRet v)
+| CF_fault d f vs fd evs ft s1 : nth_error funs f = Some fd -> fun_need w fd <= d ->
+    execs d (fn_body fd) (mkstore vs []) evs (OFault ft) s1 -> callf d f vs evs (CFault ft).
 End Source.
 Scheme exec_ind2 := Minimality for exec Sort Prop
-  with execs_ind2 := Minimality for execs Sort Prop.
-Combined Scheme exec_execs_ind from exec_ind2, execs_ind2.
+  with execs_ind2 := Minimality for execs Sort Prop
+  with callf_ind2 := Minimality for callf Sort Prop.
+Combined Scheme exec_execs_ind from exec_ind2, execs_ind2, callf_ind2.
 
 (* ================================================================================= *)
 (* 2  well-formed environments, well-scoped programs, representation                   *)
@@ -115,8 +174,9 @@ Fixpoint bscoped (w : Z) (ni nb : nat) (e : bexpr) : Prop :=
   | BAnd e1 e2 | BOr e1 e2 => bscoped w ni nb e1 /\ bscoped w ni nb e2
   end.
 (* well-scoped statements: (ni, nb) = numbers of int / bool locals in scope; inloop: break /
-   continue allowed *)
-Fixpoint sscoped (w : Z) (ni nb : nat) (inloop : bool) (s : stmt) : Prop :=
+   continue allowed; lib: what a call needs of the machine (the registers are where hidc puts
+   them, the runtime library is loaded); cf f n: function f may be called with n arguments *)
+Fixpoint sscoped (w : Z) (lib : Prop) (cf : nat -> nat -> Prop) (ni nb : nat) (inloop : bool) (s : stmt) : Prop :=
   match s with
   | SDeclI o => oscoped w ni o
   | SAssignI i o => (i < ni)%nat /\ oscoped w ni o
@@ -124,23 +184,33 @@ Fixpoint sscoped (w : Z) (ni nb : nat) (inloop : bool) (s : stmt) : Prop :=
   | SAssignB j e => (j < nb)%nat /\ bscoped w ni nb e
   | SWrite (WrByte o) => oscoped w ni o
   | SWrite _ | SWriteln => True
-  | SIf c s1 s2 => bscoped w ni nb c /\ ssscoped w ni nb inloop s1 /\ ssscoped w ni nb inloop s2
-  | SWhile c b k => bscoped w ni nb c /\ ssscoped w ni nb true b /\ ssscoped w ni nb inloop k
-  | SBlock ss => ssscoped w ni nb inloop ss
+  | SWriteI _ o => oscoped w ni o /\ lib              (* the runtime library must be there *)
+  | SWriteB _ e => bscoped w ni nb e /\ lib
+  | SIf c s1 s2 => bscoped w ni nb c /\ ssscoped w lib cf ni nb inloop s1 /\ ssscoped w lib cf ni nb inloop s2
+  | SWhile c b k => bscoped w ni nb c /\ ssscoped w lib cf ni nb true b /\ ssscoped w lib cf ni nb inloop k
+  | SBlock ss => ssscoped w lib cf ni nb inloop ss
   | SBreak | SContinue => inloop = true
+  | SDeclDiv op a b => (op = SDiv \/ op = SMod) /\ oscoped w ni a /\ oscoped w ni b /\ lib
+  | SAssignDiv i op a b => (i < ni)%nat /\ (op = SDiv \/ op = SMod) /\ oscoped w ni a /\ oscoped w ni b /\ lib
+  | SCall dst f args =>
+      match dst with DAssign i => (i < ni)%nat | _ => True end /\
+      cf f (length args) /\ Forall (oscoped w ni) args /\ lib
+  | SReturn (Some o) => oscoped w ni o
+  | SReturn None => True
   end
-with ssscoped (w : Z) (ni nb : nat) (inloop : bool) (ss : stmts) : Prop :=
+with ssscoped (w : Z) (lib : Prop) (cf : nat -> nat -> Prop) (ni nb : nat) (inloop : bool) (ss : stmts) : Prop :=
   match ss with
   | SNil => True
   | SCons s r =>
-      sscoped w ni nb inloop s /\
+      sscoped w lib cf ni nb inloop s /\
       match s with
-      | SDeclI _ => ssscoped w (S ni) nb inloop r
-      | SDeclB _ => ssscoped w ni (S nb) inloop r
-      | _ => ssscoped w ni nb inloop r
+      | SDeclI _ | SDeclDiv _ _ _ | SCall DDecl _ _ => ssscoped w lib cf (S ni) nb inloop r
+      | SDeclB _ => ssscoped w lib cf ni (S nb) inloop r
+      | _ => ssscoped w lib cf ni nb inloop r
       end
   end.
 
+(* ---------- representation ---------- *)
 Section Rep.
 Variable w : Z.
 Variable R : regmap.
@@ -169,7 +239,12 @@ Record wf_senv (S : senv) : Prop := {
   wfs_ib : forall i j, (i < length (ioffs S))%nat -> (j < length (boffs S))%nat ->
            nth j (boffs S) 0 <= nth i (ioffs S) 0 - w \/ nth i (ioffs S) 0 + 1 <= nth j (boffs S) 0 }.
 
-(* memory m holds store s in the frame laid out by S *)
+(* the ap register lies below the stack area, apart from r0, r1, r2 (hidc: ap is the first state word) *)
+Definition ap_sep : Prop :=
+  0 <= a_ap R /\ a_ap R + w <= lo /\ (a_ap R + w <= r0 \/ r0 + w <= a_ap R) /\ (a_ap R + w <= r1 \/ r1 + w <= a_ap R) /\
+  (a_ap R + w <= a_r2 R \/ a_r2 R + w <= a_ap R).
+(* memory m holds store s in the frame laid out by S; the stack area starts where ap points (no arrays
+   in the fragment: ap never moves) *)
 Record rep (S : senv) (s : store) (m : mem) : Prop := {
   rp_regs : regs_ok w R lo m;
   rp_lo : lo <= FP m - top S;
@@ -179,10 +254,17 @@ Record rep (S : senv) (s : store) (m : mem) : Prop := {
   rp_lb : length (sb s) = length (boffs S);
   rp_i : forall i, (i < length (ioffs S))%nat -> sgn (lw m (FP m - nth i (ioffs S) 0)) = nth i (si s) 0;
   rp_b : forall j, (j < length (boffs S))%nat ->
-         lb m (FP m - nth j (boffs S) 0) = nth j (sb s) 0 /\ (nth j (sb s) 0 = 0 \/ nth j (sb s) 0 = 1) }.
+         lb m (FP m - nth j (boffs S) 0) = nth j (sb s) 0 /\ (nth j (sb s) 0 = 0 \/ nth j (sb s) 0 = 1);
+  rp_ap : ap_sep -> lw m (a_ap R) = lo }.
 
 Hypothesis Hw : 2 <= w.
 Let Hw1 : 1 <= w. Proof. lia. Qed.
+
+Lemma ap_agree hi m m' : ap_sep -> agree w R lo hi m m' -> lw m' (a_ap R) = lw m (a_ap R).
+Proof.
+  intros [A0 [A1 [A2 [A3 A4]]]] [_ [_ A]]. unfold Machine.lw. apply loadn_ext. intros x Hx. rewrite (wn_w w Hw1) in Hx.
+  apply A; lia.
+Qed.
 
 Lemma env_of_wsize S : wf_senv S -> wsize (env_of S) = w.
 Proof. intros Wf. exact (wfs_w S Wf). Qed.
@@ -277,6 +359,7 @@ Proof.
   pose proof (regs_ok_agree w R lo Hw _ m m' (rp_regs S s m Rp) A) as L'.
   destruct A as [Sz A']. assert (A : agree w R lo (FP m - top S) m m') by (split; assumption).
   constructor; rewrite ?EF, ?Sz; try apply Rp; try assumption.
+  3: { intros Ap. rewrite (ap_agree _ m m' Ap A). apply (rp_ap S s m Rp Ap). }
   - intros i Hi. rewrite <- (rp_i S s m Rp i Hi). f_equal.
     destruct (rep_slot_i S s m i (FP m - top S) Wf Rp Hi ltac:(lia)) as [_ [H2 [_ H4]]].
     apply (agree_lw w R lo Hw (FP m - top S)); assumption.
@@ -298,6 +381,8 @@ Proof. intros Wf Rp A. apply (agree_mono w R lo (FP m - top S)); [destruct Wf; l
 End Rep.
 
 (* list facts for stores *)
+Lemma nth_app_last (l : list Z) x : nth (length l) (l ++ [x]) 0 = x.
+Proof. rewrite app_nth2, Nat.sub_diag by lia. reflexivity. Qed.
 Lemma length_upd i v l : length (upd i v l) = length l.
 Proof. revert i; induction l as [|x r IH]; intros [|k]; cbn [upd length]; auto. Qed.
 Lemma nth_upd_same i v l : (i < length l)%nat -> nth i (upd i v l) 0 = v.
@@ -318,6 +403,9 @@ Variable code : Z -> option instr.
 Variable cmem : mem.
 Variable lab : label -> Z.
 Hypothesis lab_range : forall l, 0 <= lab l < Machine.W w.
+Variable funs : list fundef.            (* the program *)
+Variable cf : nat -> nat -> Prop.       (* cf f n: function f may be called with n arguments *)
+Hypothesis Hfb : fb = w.                (* the frame base is the return address *)
 Notation W := (Machine.W w).
 Notation wrap := (Machine.wrap w).
 Notation sgn := (Machine.sgn w).
@@ -337,6 +425,10 @@ Notation wf_senv := (wf_senv w fb).
 Notation rep := (rep w R lo).
 Notation fagree := (fagree w R lo fb).
 Let Hw1 : 1 <= w. Proof. lia. Qed.
+(* what a call of a library routine needs: hidc's register layout and the library in the code *)
+Definition lib_hyps : Prop :=
+  a_fp R = 1 * w /\ a_r0 R = 2 * w /\ a_r1 R = 3 * w /\ a_r2 R = 4 * w /\
+  lib_at w code (a_lib R) /\ lib_range w (a_lib R) /\ a_ap R = 0.
 
 Lemma act_yield p m v x : code p = Some (IYield v) -> oval m v = Some x ->
   act (mk p m) = ANext (mk (p + 1) m) (Some (EOut (x mod 256))).
@@ -448,7 +540,7 @@ Lemma rep_push_int S s m m' v : wf_senv S -> rep S s m -> agree w R lo (FP m - t
 Proof.
   intros Wf Rp A Hr Hv. pose proof (rep_agree w R lo fb Hw S s m m' Wf Rp A) as Rp'.
   pose proof (FP_agree w R lo Hw _ m m' (rp_regs w R lo S s m Rp) A) as EF.
-  destruct Rp' as [Rg Rlo Rh Rsz Rli Rlb Ri Rb].
+  destruct Rp' as [Rg Rlo Rh Rsz Rli Rlb Ri Rb Rap].
   pose proof (wfs_w w fb S Wf) as Ews.
   constructor; cbn [push_int top ioffs boffs si sb]; rewrite ?Ews; try assumption; try lia.
   - rewrite !app_length. cbn [length]. lia.
@@ -468,7 +560,7 @@ Lemma rep_push_bool S s m m' v : wf_senv S -> rep S s m -> agree w R lo (FP m - 
 Proof.
   intros Wf Rp A Hr Hv Hn. pose proof (rep_agree w R lo fb Hw S s m m' Wf Rp A) as Rp'.
   pose proof (FP_agree w R lo Hw _ m m' (rp_regs w R lo S s m Rp) A) as EF.
-  destruct Rp' as [Rg Rlo Rh Rsz Rli Rlb Ri Rb].
+  destruct Rp' as [Rg Rlo Rh Rsz Rli Rlb Ri Rb Rap].
   constructor; cbn [push_bool top ioffs boffs si sb]; try assumption; try lia.
   - rewrite !app_length. cbn [length]. lia.
   - intros j Hj. rewrite app_length in Hj. cbn [length] in Hj.
@@ -495,8 +587,9 @@ Proof.
   { unfold fagree. apply (agree_sw w R lo Hw); [exact O2|]. right. right. destruct Rp. subst a. lia. }
   assert (EF : FP m' = FP m) by apply (FP_agree w R lo Hw _ m m' L Fa).
   split; [|exact Fa].
-  destruct Rp as [Rg Rlo Rh Rsz Rli Rlb Ri Rb].
-  constructor; cbn [si sb]; rewrite ?EF; try assumption.
+  destruct Rp as [Rg Rlo Rh Rsz Rli Rlb Ri Rb Rap].
+  constructor; cbn [si sb]; rewrite ?EF; try assumption;
+    try (intros Ap; rewrite (ap_agree w R lo Hw _ _ _ Ap Fa); exact (Rap Ap)).
   - apply (regs_ok_agree w R lo Hw _ m m' L Fa).
   - unfold m'. rewrite msize_sw. exact Rsz.
   - rewrite length_upd. exact Rli.
@@ -522,11 +615,12 @@ Proof.
   assert (Fa : fagree m m').
   { unfold fagree, agree, m', Machine.sb. split; [reflexivity|]. split.
     - intros Wfm. apply wf_setb; [exact Wfm | exact O2 | apply Z.mod_pos_bound; lia].
-    - intros x X N0 N1 N2. apply getb_setb_other; [exact O2 | exact X |]. destruct Rp. subst a. lia. }
+    - intros x X N0 N1 N2 N3. apply getb_setb_other; [exact O2 | exact X |]. destruct Rp. subst a. lia. }
   assert (EF : FP m' = FP m) by apply (FP_agree w R lo Hw _ m m' L Fa).
   split; [|exact Fa].
-  destruct Rp as [Rg Rlo Rh Rsz Rli Rlb Ri Rb].
-  constructor; cbn [si sb]; rewrite ?EF; try assumption.
+  destruct Rp as [Rg Rlo Rh Rsz Rli Rlb Ri Rb Rap].
+  constructor; cbn [si sb]; rewrite ?EF; try assumption;
+    try (intros Ap; rewrite (ap_agree w R lo Hw _ _ _ Ap Fa); exact (Rap Ap)).
   - apply (regs_ok_agree w R lo Hw _ m m' L Fa).
   - rewrite length_upd. exact Rlb.
   - intros i Hi. rewrite <- (Ri i Hi). f_equal. unfold m'.
@@ -554,33 +648,34 @@ Proof.
   split; [apply (rep_oexp w R lo fb Hw S s m o _ Wf Rp Sc); lia | lia].
 Qed.
 (* get_expr_value(r1, o): evaluate and pop into r1 *)
-Lemma get_value_runs S s m o c0 bub c1 v p : wf_senv S -> rep S s m -> oscoped w (length (ioffs S)) o ->
+Lemma get_value_runs S s m rg o c0 bub c1 v p : rg = R0 \/ rg = R1 -> wf_senv S -> rep S s m -> oscoped w (length (ioffs S)) o ->
   need_int S o false <= FP m - lo ->
-  eval_opd (env_of S) (top S) R1 o false = (c0, bub) -> pop_value R1 bub = (c1, v) -> plc (c0 ++ c1) p ->
+  eval_opd (env_of S) (top S) rg o false = (c0, bub) -> pop_value rg bub = (c1, v) -> plc (c0 ++ c1) p ->
   exists m2, runs (mk p m) [] (mk (p + size (c0 ++ c1)) m2) /\ agree w R lo (FP m - top S) m m2 /\
-             oval m2 (rs v) = Some (wval w R (env_of S) m o).
+             oval m2 (rs v) = Some (wval w R (env_of S) m o) /\ ((exists z, v = SLit z) \/ v = SReg rg).
 Proof.
-  intros Wf Rp Sc Hn Ev Pv P.
+  intros Hr Wf Rp Sc Hn Ev Pv P.
   destruct (rep_opd_hyps S s m o false Wf Rp Sc Hn) as [HwE [L [Ro [Oe T]]]].
   set (E := env_of S) in *. set (tp := top S) in *.
-  destruct (eval_opd_props w R E lo Hw HwE code cmem lab o tp R1 false m (or_intror eq_refl) L Ro Oe T) as [A [V Cd]].
-  set (m1 := eval_mem w R E tp R1 o false m) in *.
+  destruct (eval_opd_props w R E lo Hw HwE code cmem lab o tp rg false m Hr L Ro Oe T) as [A [V Cd]].
+  set (m1 := eval_mem w R E tp rg o false m) in *.
   pose proof (regs_ok_agree w R lo Hw _ m m1 L A) as L1. pose proof (FP_agree w R lo Hw _ m m1 L A) as F1.
   pose proof (room_ok_agree w R lo Hw _ tp m m1 L A Ro) as Ro1.
-  assert (Eb : bub = bub_of E tp R1 o false) by (pose proof (eval_opd_bub E o tp R1 false) as Q; rewrite Ev in Q; exact Q).
+  assert (Eb : bub = bub_of E tp rg o false) by (pose proof (eval_opd_bub E o tp rg false) as Q; rewrite Ev in Q; exact Q).
   assert (Bok : bub_ok w R lo (FP m1 - tp) m1 bub).
-  { pose proof (bub_of_ok w R E lo Hw HwE tp R1 o false m1 (or_intror eq_refl) L1 Ro1) as Bk. rewrite top_after_bub in Bk.
+  { pose proof (bub_of_ok w R E lo Hw HwE tp rg o false m1 Hr L1 Ro1) as Bk. rewrite top_after_bub in Bk.
     unfold pushed in Bk. cbn [andb] in Bk. change (Z.of_nat 0) with 0 in Bk. replace (tp + 0 * wsize E) with tp in Bk by lia.
     rewrite Eb. apply Bk; [|destruct Ro1; lia]. rewrite F1. apply (oexp_ok_agree w R E lo Hw _ (FP m - tp) m m1); assumption. }
-  destruct (pop_props w R lo Hw code cmem lab R1 bub _ m1 (or_intror eq_refl) L1 Bok) as [A2 [S2 C2]].
+  destruct (pop_props w R lo Hw code cmem lab rg bub _ m1 Hr L1 Bok) as [A2 [S2 C2]].
   apply placed_app in P. destruct P as [P1 P2].
-  exists (pop_mem w R R1 bub m1). split; [|split].
+  exists (pop_mem w R rg bub m1). split; [|split; [|split]].
   - rewrite size_app. change (@nil event) with (@nil event ++ []).
     eapply runs_trans; [apply (Cd c0 bub p Ev P1)|].
     replace (p + (size c0 + size c1)) with (p + size c0 + size c1) by lia. apply (C2 c1 v _ Pv P2).
   - eapply (agree_trans w R lo); [exact A|]. apply (agree_mono w R lo lo); [destruct Ro; lia | exact A2].
-  - assert (S2' : symval w R (pop_mem w R R1 bub m1) (sym_of R1 bub) = Some (wval w R E m o)) by (rewrite S2, Eb; f_equal; exact V).
+  - assert (S2' : symval w R (pop_mem w R rg bub m1) (sym_of rg bub) = Some (wval w R E m o)) by (rewrite S2, Eb; f_equal; exact V).
     unfold sym_of in S2'. rewrite Pv in S2'. cbn [snd] in S2'. apply (symval_oval w R cmem lab _ _ _ S2').
+  - rewrite Eb in Pv. destruct o as [z|i|op x y|u x]; cbn [bub_of pop_value] in Pv; inversion Pv; eauto.
 Qed.
 Lemma sval_ieval S s m o : wf_senv S -> rep S s m -> oscoped w (length (ioffs S)) o ->
   sgn (wval w R (env_of S) m o) = ieval w s o /\ inrange w (wval w R (env_of S) m o).
@@ -596,7 +691,7 @@ Qed.
 Lemma decl_int_runs S s m o p : wf_senv S -> rep S s m -> oscoped w (length (ioffs S)) o ->
   need_int S o true <= FP m - lo -> top S + w <= FP m - lo -> plc (decl_int S o) p ->
   exists m', runs (mk p m) [] (mk (p + size (decl_int S o)) m') /\
-             rep (push_int S) (mkstore (si s ++ [ieval w s o]) (sb s)) m' /\ fagree m m'.
+             rep (push_int S) (mkstore (si s ++ [ieval w s o]) (sb s)) m' /\ agree w R lo (FP m - top S) m m'.
 Proof.
   intros Wf Rp Sc Hn Ht P.
   destruct (rep_opd_hyps S s m o true Wf Rp Sc Hn) as [HwE [L [Ro [Oe T]]]].
@@ -643,14 +738,14 @@ Proof.
       unfold sym_of in S2'. rewrite Pv in S2'. apply (symval_oval w R cmem lab _ _ _ S2'). }
     assert (Hlh : lo <= FP m - tp) by (destruct Ro; lia).
     destruct (Final (pop_mem w R R1 bub m) (agree_mono w R lo lo (FP m - tp) _ _ Hlh A2) v _ Ov Cq) as [m' [Rn [Rp' A']]].
-    exists m'. split; [|split; [exact Rp' | apply (agree_fagree w R lo fb S s m m' Wf Rp A')]].
+    exists m'. split; [|split; [exact Rp' | exact A']].
     rewrite size_app. cbn [size]. change (@nil event) with (@nil event ++ []).
     eapply runs_trans; [apply (C2 c1 v p eq_refl P1)|].
     replace (p + (size c1 + (1 + 0))) with (p + size c1 + 1) by lia. exact Rn.
   - (* a computed value: eval_expr has pushed it *)
     assert (Ebp : bub = BuPushed (tp + w)) by (rewrite Eb; destruct o; try discriminate Sf; cbn [bub_of]; rewrite HwE; reflexivity).
     rewrite Ebp in *. set (m1 := eval_mem w R E tp R1 o true m) in *.
-    exists m1. split; [apply (Cd c0 _ p eq_refl P)|]. split; [|apply (agree_fagree w R lo fb S s m m1 Wf Rp A)].
+    exists m1. split; [apply (Cd c0 _ p eq_refl P)|]. split; [|exact A].
     apply (rep_push_int S s m); try assumption.
     assert (Ebv : bub_val w R m1 (bub_of E tp R1 o true) = lw m1 (FP m - (tp + w))).
     { destruct o; try discriminate Sf; cbn [bub_of bub_val]; rewrite HwE, (FP_agree w R lo Hw _ m m1 L A); reflexivity. }
@@ -670,7 +765,7 @@ Proof.
                = (c0 ++ c1) ++ [AInstr (ASwso (SReg RFp) (SLit (- nth i (ioffs S) 0)) v)]) by (now rewrite <- app_assoc).
   rewrite Eq in *. clear Eq. apply placed_app in P. destruct P as [P1 P2].
   cbn [plc res_ins res_sym regaddr] in P2. destruct P2 as [Cq _].
-  destruct (get_value_runs S s m o c0 bub c1 v p Wf Rp Sc Hn Ev Pv P1) as [m2 [Rn [A Ov]]].
+  destruct (get_value_runs S s m R1 o c0 bub c1 v p (or_intror eq_refl) Wf Rp Sc Hn Ev Pv P1) as [m2 [Rn [A [Ov _]]]].
   destruct (sval_ieval S s m o Wf Rp Sc) as [Sv Rv].
   pose proof (rep_agree w R lo fb Hw S s m m2 Wf Rp A) as Rp2.
   pose proof (rp_regs w R lo S s m Rp) as L. pose proof (FP_agree w R lo Hw _ m m2 L A) as F2.
@@ -793,7 +888,7 @@ Lemma agree_sb hi m a v : 0 <= a -> lo <= a -> a + 1 <= hi -> agree w R lo hi m 
 Proof.
   intros Ha Hl Hh. unfold agree, Machine.sb. split; [reflexivity|]. split.
   - intros Wfm. apply wf_setb; [exact Wfm | exact Ha | apply Z.mod_pos_bound; lia].
-  - intros x X N0 N1 N2. apply getb_setb_other; [exact Ha | exact X | lia].
+  - intros x X N0 N1 N2 N3. apply getb_setb_other; [exact Ha | exact X | lia].
 Qed.
 (* value = get_expr_value(r1, e); sbso [fp], -off, value *)
 Lemma bool_store_runs S s m off e st c st' p : wf_senv S -> rep S s m ->
@@ -840,10 +935,10 @@ Qed.
 
 (* bool p = e; *)
 Lemma declare_bool_runs S s m e st c st' p : wf_senv S -> rep S s m ->
-  bscoped w (length (ioffs S)) (length (boffs S)) e -> fst (need_stmt S (SDeclB e)) <= FP m - lo ->
+  bscoped w (length (ioffs S)) (length (boffs S)) e -> fst (need_bool_decl S e) <= FP m - lo ->
   declare_bool (env_of S) e st = (c, st') -> plc c p ->
   exists m', runs (mk p m) [] (mk (p + size c) m') /\
-             rep (push_bool S) (mkstore (si s) (sb s ++ [b2z (bevals w s e)])) m' /\ fagree m m'.
+             rep (push_bool S) (mkstore (si s) (sb s ++ [b2z (bevals w s e)])) m' /\ agree w R lo (FP m - top S) m m'.
 Proof.
   intros Wf Rp Sc Hn Ev P. pose proof (rp_regs w R lo S s m Rp) as L.
   pose proof (wfs_w w fb S Wf) as Ews. pose proof (wfs_fb w fb S Wf) as Ofb.
@@ -853,20 +948,20 @@ Proof.
   (* both shapes end by storing the value in the new byte, inside the area below the old stack top *)
   assert (Fin : forall m1, agree w R lo (FP m - top S) m m1 -> top S + 1 <= FP m - lo ->
             let m' := Machine.sb m1 (FP m - off) (b2z (bevals w s e)) in
-            rep (push_bool S) (mkstore (si s) (sb s ++ [b2z (bevals w s e)])) m' /\ fagree m m').
+            rep (push_bool S) (mkstore (si s) (sb s ++ [b2z (bevals w s e)])) m' /\ agree w R lo (FP m - top S) m m').
   { intros m1 A1 Ht m'.
     assert (A2 : agree w R lo (FP m - top S) m m').
     { eapply (agree_trans w R lo); [exact A1|]. apply agree_sb; unfold off; destruct Rp; lia. }
-    split; [|apply (agree_fagree w R lo fb S s m m' Wf Rp A2)].
+    split; [|exact A2].
     apply (rep_push_bool S s m m'); try assumption; [|apply b2z_01].
     fold off. unfold m'. rewrite lb_sb_same. destruct (bevals w s e); reflexivity. }
   assert (Ho : top S + 1 <= FP m - lo -> 0 < off <= W / 2 /\ inb m (FP m - off) 1 = true).
   { intros Ht. unfold off. split; [destruct Rp; lia|]. apply inb_true; destruct Rp; lia. }
-  cbn [need_stmt fst] in Hn. rewrite Ews in Hn.
+  unfold need_bool_decl in Hn. cbn [fst] in Hn. rewrite Ews in Hn.
   assert (Keep : (exists C0, value_lowering_keep (env_of S) e st = (C0, st') /\ c = C0) ->
             top S + 1 + Z.of_nat (temps_b e) * w <= FP m - lo ->
             exists m', runs (mk p m) [] (mk (p + size c) m') /\
-                       rep (push_bool S) (mkstore (si s) (sb s ++ [b2z (bevals w s e)])) m' /\ fagree m m').
+                       rep (push_bool S) (mkstore (si s) (sb s ++ [b2z (bevals w s e)])) m' /\ agree w R lo (FP m - top S) m m').
   { intros [C0 [Ek ->]] Hk. unfold value_lowering_keep in Ek. cbn [env_of stack_top] in Ek. fold off in Ek.
     set (E' := with_top (env_of S) off) in *.
     assert (HwE' : wsize E' = w) by exact Ews.
@@ -898,13 +993,271 @@ Proof.
   assert (Other : (assign_bool (env_of S) off e st = (c, st')) ->
             Z.max (top S + Z.of_nat (temps_b e) * w) (top S + 1) <= FP m - lo ->
             exists m', runs (mk p m) [] (mk (p + size c) m') /\
-                       rep (push_bool S) (mkstore (si s) (sb s ++ [b2z (bevals w s e)])) m' /\ fagree m m').
+                       rep (push_bool S) (mkstore (si s) (sb s ++ [b2z (bevals w s e)])) m' /\ agree w R lo (FP m - top S) m m').
   { intros Ea Hk. destruct (Ho ltac:(lia)) as [Ho1 Ho2].
     destruct (bool_store_runs S s m off e st c st' p Wf Rp Sc ltac:(lia) Ea P Ho1 Ho2) as [m1 [A1 Rn]].
     destruct (Fin m1 A1 ltac:(lia)) as [Rp' Fa]. eexists. split; [exact Rn|]. split; assumption. }
   unfold zmax in Hn.
   destruct e as [b|j|op a b|e1|e1 e2|e1 e2]; cbn [declare_bool env_of stack_top] in Ev; fold off in Ev;
     first [apply Other; [exact Ev | exact Hn] | apply Keep; [eexists; split; [exact Ev | reflexivity] | exact Hn]].
+Qed.
+
+Ltac szn := repeat progress (rewrite ?size_app; cbn [size goto]).
+Ltac szn_in H := repeat progress (rewrite ?size_app in H; cbn [size goto] in H).
+(* close a goal `runs (mk a m) l (mk b m')` with G : runs (mk a' m) l (mk b' m'), a = a', b = b' by lia *)
+Ltac close_with G :=
+  szn; szn_in G;
+  match goal with |- HidV.Sphinx.Halts.runs _ (mk ?a _) _ _ =>
+    match type of G with HidV.Sphinx.Halts.runs _ (mk ?b _) _ _ => replace a with b by lia end end;
+  match goal with |- HidV.Sphinx.Halts.runs _ _ _ (mk ?a _) =>
+    match type of G with HidV.Sphinx.Halts.runs _ _ _ (mk ?b _) => replace a with b by lia end end;
+  exact G.
+(* ---------- calls of the runtime library: write(int), write(bool) ---------- *)
+Lemma storen_loadn_getb n : forall m m' a x, wf_mem m -> 0 <= a -> a <= x < a + Z.of_nat n ->
+  getb (storen n m' a (loadn n m a)) x = getb m x.
+Proof.
+  induction n as [|k IH]; intros m m' a x Wf Ha Hx; [cbn in Hx; lia|].
+  cbn [storen loadn]. pose proof (Wf a) as Hb.
+  assert (E1 : (getb m a + 256 * loadn k m (a + 1)) mod 256 = getb m a)
+    by (rewrite (Z.mul_comm 256), Z.mod_add by lia; apply Z.mod_small; lia).
+  assert (E2 : (getb m a + 256 * loadn k m (a + 1)) / 256 = loadn k m (a + 1))
+    by (rewrite (Z.mul_comm 256), Z.div_add by lia; rewrite Z.div_small by lia; lia).
+  rewrite E1, E2. destruct (Z.eq_dec x a) as [->|Ne].
+  - rewrite storen_outside by lia. apply getb_setb_same.
+  - apply IH; [exact Wf | lia | lia].
+Qed.
+Lemma sw_same_word_bytes m m' a x : wf_mem m -> 0 <= a -> a <= x < a + w ->
+  getb (sw m' a (lw m a)) x = getb m x.
+Proof.
+  intros Wf Ha Hx. unfold Machine.sw, Machine.lw. rewrite (wrap_small w) by (apply (lw_range w Hw1); exact Wf).
+  apply storen_loadn_getb; [exact Wf | exact Ha | rewrite (wn_w w Hw1); exact Hx].
+Qed.
+Lemma wf_after_ra S : wf_senv S -> wf_senv (after_ra S).
+Proof.
+  intros Wf. destruct Wf as [Ww Wfb Wi Wb Wii Wbb Wib]. constructor; cbn [after_ra ws top ioffs boffs]; try assumption; try lia.
+  - intros i Hi. specialize (Wi i Hi). lia.
+  - intros j Hj. specialize (Wb j Hj). lia.
+Qed.
+Lemma rep_after_ra S s m m' : wf_senv S -> rep S s m -> agree w R lo (FP m - top S) m m' ->
+  top S + w <= FP m - lo -> rep (after_ra S) s m'.
+Proof.
+  intros Wf Rp A Hr. pose proof (rep_agree w R lo fb Hw S s m m' Wf Rp A) as Rp'.
+  pose proof (FP_agree w R lo Hw _ m m' (rp_regs w R lo S s m Rp) A) as EF. pose proof (wfs_w w fb S Wf) as Ews.
+  destruct Rp' as [Rg Rlo Rh Rsz Rli Rlb Ri Rb Rap]. constructor; cbn [after_ra top ioffs boffs]; rewrite ?Ews; try assumption; lia.
+Qed.
+
+Lemma lib_call_runs S s m0 mb f ec ln p evs : lib_hyps -> wf_senv S -> rep S s m0 ->
+  agree w R lo (FP m0 - top S) m0 mb -> top S + w <= FP m0 - lo ->
+  lw mb (FP m0 - top S - w) = lab ec -> plc (call_tail S ec f ln) p ->
+  (* the routine's specification at its entry memory *)
+  (forall m1, m1 = sw mb fp (FP m0 + wrap (- top S)) ->
+     exists m2 blo, runs (mk (a_lib R + std_off f) m1) (map EOut evs) (mk (lw m1 (FP m0 - top S - w)) m2) /\
+       msize m2 = msize m1 /\ wf_mem m2 /\ lo <= blo /\
+       (forall x, 0 <= x -> (x < 2 * w \/ 5 * w <= x) -> (x < blo \/ FP m0 - top S - w <= x) -> getb m2 x = getb m1 x)) ->
+  exists m3, runs (mk p mb) (map EOut (evs ++ (if ln then [10] else []))) (mk (p + size (call_tail S ec f ln)) m3) /\
+             agree w R lo (FP m0 - top S) m0 m3.
+Proof.
+  intros [Hfp [H0 [H1 [H2 [CA [BR Hap]]]]]] Wf Rp A Hr Hra P Callee.
+  pose proof (rp_regs w R lo S s m0 Rp) as L0. pose proof (regs_ok_agree w R lo Hw _ m0 mb L0 A) as Lb.
+  pose proof (FP_agree w R lo Hw _ m0 mb L0 A) as Fb. pose proof (wfs_fb w fb S Wf) as Ofb.
+  set (F := FP m0) in *. set (tp := top S) in *.
+  assert (Hlo : 5 * w <= lo) by (destruct L0; lia).
+  assert (HF : 0 <= F < W / 2) by apply (lo_F w R lo m0 L0).
+  assert (HW : W / 2 < W) by (pose proof (W_even w Hw1); pose proof (half_pos w Hw1); lia).
+  assert (Hsz : F <= msize m0) by apply (rp_sz w R lo S s m0 Rp).
+  unfold call_tail in P. fold tp in P. apply placed_app in P. destruct P as [P Pln].
+  cbn [placed res_ins res_sym regaddr] in P. destruct P as [C0 [C1 [C2 [Lec [C3 _]]]]].
+  assert (Efpc : wrap (F + wrap (- tp)) = F - tp) by (apply (wrap_add_neg w); destruct Rp; unfold F, tp in *; lia).
+  assert (Ifp : inb mb fp w = true) by apply (lo_if w R lo mb Lb).
+  assert (Rfp : inrange w (lw mb fp)) by (apply (lw_range w Hw1); apply (lo_wf w R lo mb Lb)).
+  assert (Elf : lw mb fp = F) by exact Fb.
+  set (m1 := sw mb fp (F + wrap (- tp))).
+  destruct (Callee m1 eq_refl) as [m2 [blo [Rc [Sz2 [Wf2 [Hblo Pres]]]]]].
+  assert (Wfb : wf_mem mb) by apply (lo_wf w R lo mb Lb).
+  assert (L1fp : lw m1 fp = F - tp) by (unfold m1; rewrite (lw_sw_same w Hw1) by apply (lo_fp w R lo mb Lb); exact Efpc).
+  assert (Era : lw m1 (F - tp - w) = p + 3).
+  { unfold m1. rewrite (lw_sw_other w Hw1); [rewrite Hra, Lec; lia | apply (lo_fp w R lo mb Lb) | destruct Rp; unfold F, tp in *; lia | destruct L0; destruct Rp; unfold F, tp in *; lia]. }
+  assert (L2fp : lw m2 fp = F - tp).
+  { rewrite <- L1fp. unfold Machine.lw. apply loadn_ext. intros x Hx. rewrite (wn_w w Hw1) in Hx. apply Pres; rewrite Hfp in *; lia. }
+  set (Pp := fun a => 0 <= a /\ (a < 2 * w \/ 5 * w <= a) /\ (a < blo \/ F - tp - w <= a) /\ (a < fp \/ fp + w <= a)).
+  assert (Eov : oval m1 (Imm (a_lib R + std_off f)) = Some (a_lib R + std_off f)).
+  { rewrite oval_imm. f_equal. apply (wrap_small w). destruct BR as [B0 B1]. unfold inrange.
+    destruct f; cbn [std_off]; unfold off_write_int, off_write_bool, off_division_by_zero, off_stack_overflow, stdlib_len in *; lia. }
+  pose proof (call_idiom w Hw code cmem p mb fp (- tp) tp (Imm (a_lib R + std_off f)) (a_lib R + std_off f) (map EOut evs) m2 Pp
+                C0 C1 ltac:(replace (p + 2) with (p + 1 + 1) by lia; exact C2)
+                ltac:(replace (p + 3) with (p + 1 + 1 + 1) by lia; exact C3) eq_refl (lo_fp w R lo mb Lb) Ifp Rfp) as CI.
+  cbv zeta in CI. rewrite Elf, Efpc in CI. fold m1 in CI. rewrite Era in CI.
+  assert (Rc' : runs (mk (a_lib R + std_off f) m1) (map EOut evs) (mk (p + 3) m2)) by (rewrite <- Era; exact Rc).
+  destruct (CI Eov eq_refl Rc' Sz2 L2fp) as [Rcall [Lf3 [HP3 F3]]].
+  { intros a [Pa [Pb [Pc _]]]. apply Pres; assumption. }
+  { intros a [Pa [_ [_ Pd]]]. split; assumption. }
+  clear CI.
+  set (m3 := sw m2 fp (F - tp + wrap tp)) in *.
+    assert (E3 : m3 = sw m2 fp (lw mb fp)).
+    { unfold m3. apply sw_wrap_eq. rewrite <- (lw_sw_same w Hw1 m2 fp (F - tp + wrap tp)) by apply (lo_fp w R lo mb Lb).
+      fold m3. rewrite Lf3, Elf. symmetry. apply (wrap_small w). rewrite <- Elf. exact Rfp. }
+    assert (Ab : agree w R lo (F - tp) mb m3).
+    { split; [unfold m3; rewrite msize_sw, Sz2; unfold m1; apply msize_sw|].
+      split; [intros _; unfold m3; apply (wf_sw w); [exact Wf2 | apply (lo_fp w R lo mb Lb)]|].
+      intros x X N0 N1 N2 N3. rewrite H0, H1, H2 in *.
+      destruct (Z_lt_le_dec x fp) as [Lt|Ge]; [|destruct (Z_lt_le_dec x (fp + w)) as [Lt2|Ge2]].
+      - rewrite HP3; [reflexivity|]. unfold Pp. rewrite Hfp in *. repeat split; try lia.
+      - rewrite E3. apply sw_same_word_bytes; [exact Wfb | apply (lo_fp w R lo mb Lb) | lia].
+      - rewrite HP3; [reflexivity|]. unfold Pp. rewrite Hfp in *. repeat split; try lia. }
+    assert (A3 : agree w R lo (F - tp) m0 m3) by (eapply (agree_trans w R lo); eauto).
+    destruct ln.
+    + cbn [placed res_ins res_sym] in Pln. destruct Pln as [Cy _].
+      exists m3. split; [|exact A3]. rewrite map_app. cbn [map].
+      eapply runs_trans; [exact Rcall|].
+      pose proof (yield_runs _ m3 (Imm 10) (wrap 10) Cy (oval_imm w cmem m3 10)) as Y. rewrite wrap_mod256 in Y.
+      change (10 mod 256) with 10 in Y. unfold call_tail. fold tp. close_with Y.
+    + exists m3. split; [|exact A3]. rewrite app_nil_r. unfold call_tail. fold tp. close_with Rcall.
+Qed.
+
+Lemma need_max a b X : zmax a b <= X -> a <= X /\ b <= X.
+Proof. unfold zmax. lia. Qed.
+
+(* the return address pushed below the stack top *)
+Lemma push_ra_runs S s m ec p : wf_senv S -> rep S s m -> top S + w <= FP m - lo ->
+  plc [push_ra S ec] p ->
+  let ma := sw m (FP m - (top S + w)) (lab ec) in
+  runs (mk p m) [] (mk (p + 1) ma) /\ agree w R lo (FP m - top S) m ma /\
+  rep (after_ra S) s ma /\ lw ma (FP m - top S - w) = lab ec.
+Proof.
+  intros Wf Rp Hr P ma. pose proof (rp_regs w R lo S s m Rp) as L. pose proof (wfs_fb w fb S Wf) as Ofb.
+  pose proof (wfs_w w fb S Wf) as Ews. assert (Hlo : 0 <= lo) by (destruct L; lia).
+  cbn [placed push_ra res_ins res_sym regaddr] in P. destruct P as [C _]. rewrite Ews in C.
+  assert (Ho : 0 < top S + w <= W / 2) by (destruct Rp; lia).
+  assert (I : inb m (FP m - (top S + w)) w = true) by (apply inb_true; destruct Rp; lia).
+  assert (A : agree w R lo (FP m - top S) m ma) by (apply (agree_sw w R lo Hw); [destruct Rp; lia | right; right; destruct Rp; lia]).
+  split; [apply (store_word_runs p m (Imm (lab ec)) (lab ec) (top S + w) C (oval_lab w cmem lab lab_range m ec) L Ho I)|].
+  split; [exact A|]. split; [apply (rep_after_ra S s m ma Wf Rp A Hr)|].
+  unfold ma. replace (FP m - top S - w) with (FP m - (top S + w)) by lia.
+  rewrite (lw_sw_same w Hw1) by (destruct Rp; lia). apply (wrap_small w). apply lab_range.
+Qed.
+
+(* write(o) / writeln(o) for an int: the decimal representation, through write_int *)
+Lemma writei_runs S s m ln o ec p : lib_hyps -> wf_senv S -> rep S s m -> oscoped w (length (ioffs S)) o ->
+  fst (need_stmt S (SWriteI ln o)) <= FP m - lo ->
+  plc ([push_ra S ec] ++ decl_int (after_ra S) o ++ call_tail S ec LibWriteInt ln) p ->
+  exists m', runs (mk p m) (map EOut (decimal (ieval w s o) ++ (if ln then [10] else [])))
+                  (mk (p + size ([push_ra S ec] ++ decl_int (after_ra S) o ++ call_tail S ec LibWriteInt ln)) m') /\
+             rep S s m' /\ fagree m m'.
+Proof.
+  intros Hl Wf Rp Sc Hn P. pose proof Hl as [Hfp [H0 [H1 [H2 [CA [BR Hap]]]]]].
+  pose proof (rp_regs w R lo S s m Rp) as L. pose proof (wfs_fb w fb S Wf) as Ofb. pose proof (wfs_w w fb S Wf) as Ews.
+  assert (Hlo : 5 * w <= lo) by (destruct L; lia).
+  cbn [need_stmt fst] in Hn. rewrite Ews in Hn. apply need_max in Hn. destruct Hn as [Hn Hd]. apply need_max in Hn. destruct Hn as [Hna Hnb].
+  set (F := FP m) in *. set (tp := top S) in *.
+  apply placed_app in P. destruct P as [Pra P]. apply placed_app in P. destruct P as [Parg Pcall].
+  destruct (push_ra_runs S s m ec p Wf Rp ltac:(fold F tp; lia) Pra) as [Ra [Aa [Rpa Era]]]. fold F tp in Ra, Aa, Rpa, Era.
+  set (ma := sw m (F - (tp + w)) (lab ec)) in *.
+  pose proof (wf_after_ra S Wf) as Wfa. pose proof (FP_agree w R lo Hw _ m ma L Aa) as Fa.
+  assert (Sca : oscoped w (length (ioffs (after_ra S))) o) by exact Sc.
+  destruct (decl_int_runs (after_ra S) s ma o _ Wfa Rpa Sca ltac:(rewrite Fa; exact Hna) ltac:(rewrite Fa; cbn [after_ra top]; rewrite Ews; fold F tp; lia) Parg)
+    as [mb [Rb [Rpb Ab]]].
+  rewrite Fa in Ab. cbn [after_ra top] in Ab. rewrite Ews in Ab. fold F tp in Ab.
+  assert (Amb : agree w R lo (F - tp) m mb).
+  { eapply (agree_trans w R lo); [exact Aa|]. apply (agree_mono w R lo (F - (tp + w))); [lia | exact Ab]. }
+  pose proof (regs_ok_agree w R lo Hw _ m mb L Amb) as Lb.
+  assert (Erab : lw mb (F - tp - w) = lab ec).
+  { rewrite <- Era. apply (agree_lw w R lo Hw (F - (tp + w)) ma mb); [exact Ab | destruct Rp; unfold F, tp in *; lia |].
+    unfold dj. destruct L. destruct Rp. unfold F, tp in *. lia. }
+  (* the argument *)
+  destruct (sval_ieval S s m o Wf Rp Sc) as [Sv Rv].
+  assert (Vr : - (W / 2) <= ieval w s o < W / 2) by (rewrite <- Sv; apply (sgn_range w Hw1); exact Rv).
+  assert (Earg : sgn (lw mb (F - tp - 2 * w)) = ieval w s o).
+  { pose proof (rp_i w R lo _ _ mb Rpb (length (ioffs S))) as X. cbn [push_int after_ra ioffs top ws] in X.
+    rewrite app_length in X. cbn [length] in X. specialize (X ltac:(lia)).
+    rewrite nth_app_last in X. rewrite <- (rp_li w R lo S s m Rp) in X. cbn [si] in X. rewrite nth_app_last in X.
+    rewrite (FP_agree w R lo Hw _ m mb L Amb), Ews in X. fold F tp in X.
+    replace (F - tp - 2 * w) with (F - (tp + w + w)) by lia. exact X. }
+  destruct (lib_call_runs S s m mb LibWriteInt ec ln _ (decimal (ieval w s o)) Hl Wf Rp Amb ltac:(fold F tp; lia) Erab Pcall)
+    as [m3 [R3 A3]].
+  { intros m1 Em1. fold F tp in Em1.
+    assert (Efpc : wrap (F + wrap (- tp)) = F - tp) by (apply (wrap_add_neg w); destruct L; destruct Rp; unfold F, tp in *; lia).
+    assert (Fr : frame_ok w m1 (F - tp) w).
+    { unfold frame_ok, reg_fp, stack_start. rewrite <- Hfp. subst m1.
+      split; [apply (wf_sw w); [apply (lo_wf w R lo mb Lb) | apply (lo_fp w R lo mb Lb)]|].
+      split; [rewrite (lw_sw_same w Hw1) by apply (lo_fp w R lo mb Lb); exact Efpc|].
+      rewrite msize_sw. destruct Amb as [Sz _]. rewrite Sz. destruct L. destruct Rp. unfold F, tp in *. lia. }
+    assert (Ev1 : sgn (lw m1 (F - tp - 2 * w)) = ieval w s o).
+    { subst m1. rewrite (lw_sw_other w Hw1); [exact Earg | apply (lo_fp w R lo mb Lb) | destruct Rp; unfold F, tp in *; lia | destruct L; destruct Rp; unfold F, tp in *; lia]. }
+    assert (Nd : ndigits (Z.abs (ieval w s o)) <= max_digits w).
+    { unfold max_digits. rewrite <- (W_half w Hw1). apply ndigits_mono; lia. }
+    pose proof (ndigits_pos (Z.abs (ieval w s o)) ltac:(lia)) as Np.
+    assert (Room : write_int_room w (F - tp) (ieval w s o)) by (unfold write_int_room, write_int_lo, stack_start; lia).
+    pose proof (write_int_spec w code cmem (a_lib R) Hw CA BR m1 (F - tp) Fr) as Sp. cbv zeta in Sp.
+    replace (F - tp - 2 * w) with (F - tp - 2 * w) in Sp by lia. rewrite Ev1 in Sp.
+    destruct (Sp Room) as [m2 [Rn [[Sz Ae] [Wf2 _]]]].
+    exists m2, (write_int_lo w (F - tp) (ieval w s o)). split; [exact Rn|]. split; [exact Sz|]. split; [exact Wf2|].
+    split; [unfold write_int_lo; lia | exact Ae]. }
+  fold F tp in R3, A3.
+  exists m3. split; [|split; [apply (rep_agree w R lo fb Hw S s m m3 Wf Rp A3) | apply (agree_fagree w R lo fb S s m m3 Wf Rp A3)]].
+  change (map EOut (decimal (ieval w s o) ++ (if ln then [10] else []))) with ([] ++ ([] ++ map EOut (decimal (ieval w s o) ++ (if ln then [10] else [])))).
+  eapply runs_trans; [exact Ra|]. eapply runs_trans; [exact Rb|]. close_with R3.
+Qed.
+
+(* write(e) / writeln(e) for a bool: "true" / "false", through write_bool *)
+Lemma writeb_runs S s m ln e ec st1 c st2 p : lib_hyps -> wf_senv S -> rep S s m ->
+  bscoped w (length (ioffs S)) (length (boffs S)) e ->
+  fst (need_stmt S (SWriteB ln e)) <= FP m - lo ->
+  declare_bool (env_of (after_ra S)) e st1 = (c, st2) ->
+  plc ([push_ra S ec] ++ c ++ call_tail S ec LibWriteBool ln) p ->
+  exists m', runs (mk p m) (map EOut ((if bevals w s e then str_true else str_false) ++ (if ln then [10] else [])))
+                  (mk (p + size ([push_ra S ec] ++ c ++ call_tail S ec LibWriteBool ln)) m') /\
+             rep S s m' /\ fagree m m'.
+Proof.
+  intros Hl Wf Rp Sc Hn Ed P. pose proof Hl as [Hfp [H0 [H1 [H2 [CA [BR Hap]]]]]].
+  pose proof (rp_regs w R lo S s m Rp) as L. pose proof (wfs_fb w fb S Wf) as Ofb. pose proof (wfs_w w fb S Wf) as Ews.
+  assert (Hlo : 5 * w <= lo) by (destruct L; lia).
+  cbn [need_stmt fst] in Hn.
+  assert (Hn1 : top S + w + 1 <= FP m - lo).
+  { unfold need_bool_decl in Hn. cbn [fst after_ra top ws] in Hn. rewrite Ews in Hn.
+    assert (0 <= Z.of_nat (temps_b e) * w) by (apply Z.mul_nonneg_nonneg; lia). unfold zmax in Hn. destruct e; lia. }
+  set (F := FP m) in *. set (tp := top S) in *.
+  apply placed_app in P. destruct P as [Pra P]. apply placed_app in P. destruct P as [Parg Pcall].
+  destruct (push_ra_runs S s m ec p Wf Rp ltac:(fold F tp; lia) Pra) as [Ra [Aa [Rpa Era]]]. fold F tp in Ra, Aa, Rpa, Era.
+  set (ma := sw m (F - (tp + w)) (lab ec)) in *.
+  pose proof (wf_after_ra S Wf) as Wfa. pose proof (FP_agree w R lo Hw _ m ma L Aa) as Fa.
+  assert (Sca : bscoped w (length (ioffs (after_ra S))) (length (boffs (after_ra S))) e) by exact Sc.
+  destruct (declare_bool_runs (after_ra S) s ma e st1 c st2 _ Wfa Rpa Sca ltac:(rewrite Fa; exact Hn) Ed Parg)
+    as [mb [Rb [Rpb Ab]]].
+  rewrite Fa in Ab. cbn [after_ra top] in Ab. rewrite Ews in Ab. fold F tp in Ab.
+  assert (Amb : agree w R lo (F - tp) m mb).
+  { eapply (agree_trans w R lo); [exact Aa|]. apply (agree_mono w R lo (F - (tp + w))); [lia | exact Ab]. }
+  pose proof (regs_ok_agree w R lo Hw _ m mb L Amb) as Lb.
+  assert (Erab : lw mb (F - tp - w) = lab ec).
+  { rewrite <- Era. apply (agree_lw w R lo Hw (F - (tp + w)) ma mb); [exact Ab | destruct Rp; unfold F, tp in *; lia |].
+    unfold dj. destruct L. destruct Rp. unfold F, tp in *. lia. }
+  assert (Earg : lb mb (F - tp - w - 1) = b2z (bevals w s e)).
+  { pose proof (rp_b w R lo _ _ mb Rpb (length (boffs S))) as X. cbn [push_bool after_ra boffs top ws] in X.
+    rewrite app_length in X. cbn [length] in X. specialize (X ltac:(lia)). destruct X as [X _].
+    rewrite nth_app_last in X. rewrite <- (rp_lb w R lo S s m Rp) in X. cbn [sb] in X. rewrite nth_app_last in X.
+    rewrite (FP_agree w R lo Hw _ m mb L Amb), Ews in X. fold F tp in X.
+    replace (F - tp - w - 1) with (F - (tp + w + 1)) by lia. exact X. }
+  destruct (lib_call_runs S s m mb LibWriteBool ec ln _ (if bevals w s e then str_true else str_false) Hl Wf Rp Amb ltac:(fold F tp; lia) Erab Pcall)
+    as [m3 [R3 A3]].
+  { intros m1 Em1. fold F tp in Em1.
+    assert (Efpc : wrap (F + wrap (- tp)) = F - tp) by (apply (wrap_add_neg w); destruct L; destruct Rp; unfold F, tp in *; lia).
+    assert (Fr : frame_ok w m1 (F - tp) 1).
+    { unfold frame_ok, reg_fp, stack_start. rewrite <- Hfp. subst m1.
+      split; [apply (wf_sw w); [apply (lo_wf w R lo mb Lb) | apply (lo_fp w R lo mb Lb)]|].
+      split; [rewrite (lw_sw_same w Hw1) by apply (lo_fp w R lo mb Lb); exact Efpc|].
+      rewrite msize_sw. destruct Amb as [Sz _]. rewrite Sz. destruct L. destruct Rp. unfold F, tp in *. lia. }
+    assert (Ev1 : lb m1 (F - tp - w - 1) = b2z (bevals w s e)).
+    { subst m1. rewrite (lb_sw_other w Hw1); [exact Earg | apply (lo_fp w R lo mb Lb) | destruct Rp; unfold F, tp in *; lia | destruct L; destruct Rp; unfold F, tp in *; lia]. }
+    pose proof (write_bool_spec w code cmem (a_lib R) Hw CA BR m1 (F - tp) Fr) as Sp. cbv zeta in Sp. rewrite Ev1 in Sp.
+    destruct Sp as [m2 [Rn [[Sz Ae] Wf2]]].
+    exists m2, (F - tp - w). split.
+    { replace (if b2z (bevals w s e) =? 0 then str_false else str_true) with (if bevals w s e then str_true else str_false) in Rn
+        by (destruct (bevals w s e); reflexivity). exact Rn. }
+    split; [exact Sz|]. split; [exact Wf2|]. split; [lia|]. intros x X X1 _. apply Ae; assumption. }
+  fold F tp in R3, A3.
+  exists m3. split; [|split; [apply (rep_agree w R lo fb Hw S s m m3 Wf Rp A3) | apply (agree_fagree w R lo fb S s m m3 Wf Rp A3)]].
+  change (map EOut ((if bevals w s e then str_true else str_false) ++ (if ln then [10] else [])))
+    with ([] ++ ([] ++ map EOut ((if bevals w s e then str_true else str_false) ++ (if ln then [10] else [])))).
+  eapply runs_trans; [exact Ra|]. eapply runs_trans; [exact Rb|]. close_with R3.
 Qed.
 
 (* ================================================================================= *)
@@ -929,6 +1282,347 @@ Proof.
 Qed.
 
 (* S1 extends S: the same locals, then more *)
+(* ---------- division in a checked build ---------- *)
+Lemma arith_div_sem op xv yv r : op = SDiv \/ op = SMod -> inrange w xv -> inrange w yv ->
+  arith w (arith_instr op) xv yv = Some r -> wrap r = wrap (arith_sem op (sgn xv) (sgn yv)).
+Proof.
+  intros Hop Hx Hy Ar. pose proof (arith_map_correct w Hw1) as F. rewrite Forall_forall in F.
+  destruct Hop as [-> | ->].
+  - specialize (F (SDiv, Adiv) ltac:(cbn; tauto) xv yv Hx Hy). cbn [fst snd] in F.
+    change (arith_instr SDiv) with Adiv in Ar. rewrite Ar in F. exact F.
+  - specialize (F (SMod, Amod) ltac:(cbn; tauto) xv yv Hx Hy). cbn [fst snd] in F.
+    change (arith_instr SMod) with Amod in Ar. rewrite Ar in F. exact F.
+Qed.
+Lemma sgn_zero_iff x : inrange w x -> (sgn x = 0 <-> x = 0).
+Proof.
+  intros Hx. assert (Z0 : inrange w 0) by (unfold inrange; pose proof (W_pos w Hw1); lia).
+  assert (S0 : sgn 0 = 0) by (apply (sgn_small w); pose proof (half_pos w Hw1); lia).
+  split; [intros H; apply (sgn_inj w Hw1 x 0 Hx Z0); now rewrite S0 | intros ->; exact S0].
+Qed.
+Definition div_stub : Z := a_lib R + off_division_by_zero.
+Lemma stub_not_halts off m : lib_hyps -> off = off_division_by_zero \/ off = off_stack_overflow ->
+  ~ Halts (mk (a_lib R + off) m) /\ wrap (a_lib R + off) = a_lib R + off.
+Proof.
+  intros [_ [_ [_ [_ [CA [BR _]]]]]] Ho. split.
+  - destruct Ho as [-> | ->];
+      [apply (division_by_zero_absorbing w code cmem (a_lib R) Hw CA BR m) | apply (stack_overflow_absorbing w code cmem (a_lib R) Hw CA BR m)].
+  - apply (wrap_small w). destruct BR as [B0 B1]. unfold inrange.
+    destruct Ho as [-> | ->]; unfold off_division_by_zero, off_stack_overflow, stdlib_len in *; lia.
+Qed.
+
+(* eval_expr(r1, a / b, keep): the operands as in a comparison, the guard, the division, the push *)
+Lemma eval_div_runs S s m op a b keep da c bub p : lib_hyps -> wf_senv S -> rep S s m -> op = SDiv \/ op = SMod ->
+  oscoped w (length (ioffs S)) a -> oscoped w (length (ioffs S)) b ->
+  need_int S (OArith op a b) keep <= FP m - lo ->
+  eval_div (env_of S) (top S) R1 op a b keep da = (c, bub) -> plc c p ->
+  bub = fin_bub w (top S) R1 keep /\
+  (ieval w s b <> 0 -> exists m' xw, runs (mk p m) [] (mk (p + size c) m') /\ agree w R lo (FP m - top S) m m' /\
+       bub_val w R m' bub = xw /\ inrange w xw /\ sgn xw = swrap w (arith_sem op (ieval w s a) (ieval w s b))) /\
+  (ieval w s b = 0 -> exists m', runs (mk p m) [] (mk div_stub m')).
+Proof.
+  intros Hl Wf Rp Hop Sa Sb Hn Ev P.
+  pose proof (wfs_w w fb S Wf) as Ews. pose proof (rp_regs w R lo S s m Rp) as L.
+  assert (HwE : wsize (env_of S) = w) by exact Ews.
+  set (E := env_of S) in *. set (tp := top S) in *.
+  unfold need_int in Hn. rewrite Ews in Hn. cbn [temps] in Hn. fold tp in Hn.
+  assert (W0 : 0 <= w) by lia.
+  assert (Tall : Z.of_nat (Nat.max (temps_cmp a b) (if keep then 1%nat else 0%nat)) * w <= FP m - tp - lo) by (unfold temps_cmp; lia).
+  assert (Tp : Z.of_nat (temps_cmp a b) * w <= FP m - tp - lo) by (eapply room_le; [exact W0 | apply Nat.le_max_l | exact Tall]).
+  assert (Hk : keep = true -> w <= FP m - tp - lo).
+  { intros ->. assert (Z.of_nat 1 * w <= FP m - tp - lo) by (eapply room_le; [exact W0 | apply Nat.le_max_r | exact Tall]). lia. }
+  assert (Ro : room_ok w R lo tp m).
+  { apply (rep_room w R lo fb S s m tp Wf Rp); [unfold tp; lia|]. assert (0 <= Z.of_nat (temps_cmp a b) * w) by (apply Z.mul_nonneg_nonneg; lia). lia. }
+  pose proof (rep_oexp w R lo fb Hw S s m a (FP m - tp) Wf Rp Sa ltac:(unfold tp; lia)) as Oa.
+  pose proof (rep_oexp w R lo fb Hw S s m b (FP m - tp) Wf Rp Sb ltac:(unfold tp; lia)) as Ob.
+  destruct (sval_ieval S s m a Wf Rp Sa) as [Sva Rva]. destruct (sval_ieval S s m b Wf Rp Sb) as [Svb Rvb].
+  destruct (pair_props w R E lo Hw HwE code cmem lab a b (eval_opd_props w R E lo Hw HwE code cmem lab a)
+              (eval_opd_props w R E lo Hw HwE code cmem lab b) tp m L Ro Oa Ob Tp) as [A4 [Sl [Sr C]]].
+  set (kx := negb (is_safe b)) in *. set (bx := bub_of E tp R0 a kx) in *.
+  set (by_ := bub_of E (top_after tp bx) R1 b false) in *. set (m4 := pair_mem w R E tp a b m) in *.
+  pose proof (regs_ok_agree w R lo Hw _ m m4 L A4) as L4.
+  unfold eval_div in Ev. change (with_top E tp) with E in Ev. unfold compare_operands in Ev. change (stack_top E) with tp in Ev. fold kx in Ev.
+  destruct (eval_opd E tp R0 a kx) as [c1 bx'] eqn:E1.
+  destruct (eval_opd E (top_after tp bx') R1 b false) as [c2 by'] eqn:E2.
+  destruct (pop_value R1 by') as [c2' rhs] eqn:E3. destruct (pop_value R0 bx') as [c3 lhs] eqn:E4.
+  rewrite (finish_opd_eq w E HwE) in Ev. inversion Ev; subst c bub; clear Ev.
+  split; [reflexivity|].
+  apply placed_app in P. destruct P as [P P6]. apply placed_app in P. destruct P as [P4 Pg].
+  cbn [placed res_ins res_sym] in Pg. destruct Pg as [Cj [Cc [Ce [Ch [Lda [Ci _]]]]]].
+  destruct (C c1 bx' c2 by' c2' rhs c3 lhs p eq_refl E2 E3 E4 P4) as [El [Er R4]]. subst lhs rhs.
+  set (p4 := p + size (c1 ++ c2 ++ c2' ++ c3)) in *.
+  assert (Ir : 0 <= r1 /\ inb m4 r1 w = true) by (destruct L4; split; assumption). destruct Ir as [Ir0 Ir1].
+  destruct (stub_not_halts off_division_by_zero m4 Hl (or_introl eq_refl)) as [Nh Ws].
+  assert (Hai : arith_instr op = Adiv \/ arith_instr op = Amod) by (destruct Hop as [-> | ->]; [left | right]; reflexivity).
+  replace (p4 + 1 + 1) with (p4 + 2) in Ce by lia. replace (p4 + 1 + 1 + 1) with (p4 + 3) in Ch by lia.
+  replace (p4 + 1 + 1 + 1 + 1) with (p4 + 4) in Ci by lia.
+  replace (p4 + 1 + 1 + 1 + 1) with (p4 + 4) in Lda by lia.
+  destruct (div_guard_idiom w Hw code cmem p4 m4 (Imm (lab da)) (Imm (a_lib R + off_division_by_zero)) div_stub
+              (rs (sym_of R1 by_)) (wval w R E m b) (arith_instr op) r1 (rs (sym_of R0 bx)) (wval w R E m a)
+              Cj ltac:(rewrite oval_imm, (wrap_small w _ (lab_range da)), Lda; reflexivity) Cc
+              (symval_oval w R cmem lab _ _ _ Sr) Rvb Ce Ch ltac:(rewrite oval_imm; unfold div_stub; now rewrite Ws)
+              Ci Hai (symval_oval w R cmem lab _ _ _ Sl) Ir1) as [Gok Gf].
+  split.
+  - intros Nz. assert (Nz' : wval w R E m b <> 0) by (intro Z0; apply Nz; rewrite <- Svb; apply (sgn_zero_iff _ Rvb); exact Z0).
+    destruct (Gok Nz') as [Rg [r [Ar Aa]]].
+    pose proof (arith_div_sem op _ _ r Hop Rva Rvb Ar) as Wr. rewrite Sva, Svb in Wr.
+    set (m5 := sw m4 r1 r) in *.
+    assert (A5 : agree w R lo (FP m - tp) m m5).
+    { eapply (agree_trans w R lo); [exact A4|]. apply (agree_sw w R lo Hw); [exact Ir0 | auto]. }
+    destruct (push_props w R lo Hw code cmem lab tp R1 keep m m5 (or_intror eq_refl) L Ro A5 Hk) as [A6 [V6 C6]].
+    exists (push_mem w R keep tp R1 m5), (wrap r). split; [|split; [exact A6 | split; [|split]]].
+    + change (@nil event) with (@nil event ++ ([] ++ ([] ++ []))).
+      eapply runs_trans; [exact R4|]. eapply runs_trans; [exact Rg|]. eapply runs_trans; [apply (runs_next act _ _ None Aa)|].
+      pose proof (C6 _ P6) as G. cbn [size div_guard] in G |- *. fold p4.
+      repeat (rewrite ?size_app; cbn [size div_guard]). rewrite !size_app in G. cbn [size div_guard] in G.
+      match goal with |- HidV.Sphinx.Halts.runs _ (mk ?x _) _ _ =>
+        match type of G with HidV.Sphinx.Halts.runs _ (mk ?y _) _ _ => replace x with y by (unfold p4; rewrite ?size_app; lia) end end.
+      match goal with |- HidV.Sphinx.Halts.runs _ _ _ (mk ?x _) =>
+        match type of G with HidV.Sphinx.Halts.runs _ _ _ (mk ?y _) => replace x with y by (unfold p4; rewrite ?size_app; lia) end end.
+      exact G.
+    + rewrite V6. cbn [regaddr]. unfold m5. apply (lw_sw_same w Hw1). exact Ir0.
+    + apply (wrap_range w Hw1).
+    + rewrite Wr. reflexivity.
+  - intros Z0. assert (Z0' : wval w R E m b = 0) by (apply (sgn_zero_iff _ Rvb); rewrite Svb; exact Z0).
+    destruct (Gf Z0' Nh) as [Rg _]. exists m4. change (@nil event) with (@nil event ++ []). eapply runs_trans; [exact R4 | exact Rg].
+Qed.
+
+(* int x = a / b; *)
+Lemma decldiv_runs S s m op a b da p : lib_hyps -> wf_senv S -> rep S s m -> op = SDiv \/ op = SMod ->
+  oscoped w (length (ioffs S)) a -> oscoped w (length (ioffs S)) b ->
+  need_int S (OArith op a b) true <= FP m - lo -> top S + w <= FP m - lo -> plc (decl_div S op a b da) p ->
+  (ieval w s b <> 0 -> exists m', runs (mk p m) [] (mk (p + size (decl_div S op a b da)) m') /\
+     rep (push_int S) (mkstore (si s ++ [swrap w (arith_sem op (ieval w s a) (ieval w s b))]) (sb s)) m' /\
+     agree w R lo (FP m - top S) m m') /\
+  (ieval w s b = 0 -> exists m', runs (mk p m) [] (mk div_stub m')).
+Proof.
+  intros Hl Wf Rp Hop Sa Sb Hn Ht P. unfold decl_div in *.
+  destruct (eval_div (env_of S) (top S) R1 op a b true da) as [c bub] eqn:Ev. cbn [fst] in *.
+  destruct (eval_div_runs S s m op a b true da c bub p Hl Wf Rp Hop Sa Sb Hn Ev P) as [Eb [Ok Fl]]. split; [|exact Fl].
+  intros Nz. destruct (Ok Nz) as [m' [xw [Rn [A [Bv [Rx Sx]]]]]]. exists m'. split; [exact Rn|]. split; [|exact A].
+  apply (rep_push_int S s m m' _ Wf Rp A Ht). subst bub. cbn [fin_bub bub_val] in Bv.
+  rewrite (FP_agree w R lo Hw _ m m' (rp_regs w R lo S s m Rp) A) in Bv. rewrite Bv. exact Sx.
+Qed.
+(* xi = a / b; *)
+Lemma assdiv_runs S s m i op a b da p : lib_hyps -> wf_senv S -> rep S s m -> (i < length (ioffs S))%nat ->
+  op = SDiv \/ op = SMod -> oscoped w (length (ioffs S)) a -> oscoped w (length (ioffs S)) b ->
+  need_int S (OArith op a b) false <= FP m - lo -> plc (assign_div S i op a b da) p ->
+  (ieval w s b <> 0 -> exists m', runs (mk p m) [] (mk (p + size (assign_div S i op a b da)) m') /\
+     rep S (mkstore (upd i (swrap w (arith_sem op (ieval w s a) (ieval w s b))) (si s)) (sb s)) m' /\ fagree m m') /\
+  (ieval w s b = 0 -> exists m', runs (mk p m) [] (mk div_stub m')).
+Proof.
+  intros Hl Wf Rp Hi Hop Sa Sb Hn P. unfold assign_div in *.
+  destruct (eval_div (env_of S) (top S) R1 op a b false da) as [c bub] eqn:Ev. cbn [fst] in *.
+  apply placed_app in P. destruct P as [P1 P2]. cbn [placed res_ins res_sym regaddr] in P2. destruct P2 as [Cq _].
+  destruct (eval_div_runs S s m op a b false da c bub p Hl Wf Rp Hop Sa Sb Hn Ev P1) as [Eb [Ok Fl]]. split; [|exact Fl].
+  intros Nz. destruct (Ok Nz) as [m2 [xw [Rn [A [Bv [Rx Sx]]]]]].
+  pose proof (rep_agree w R lo fb Hw S s m m2 Wf Rp A) as Rp2.
+  pose proof (rp_regs w R lo S s m Rp) as L. pose proof (FP_agree w R lo Hw _ m m2 L A) as F2.
+  destruct (rep_slot_i w R lo fb Hw S s m2 i (FP m2 - top S) Wf Rp2 Hi ltac:(lia)) as [O1 [O2 [O3 _]]].
+  subst bub. cbn [fin_bub bub_val regaddr] in Bv.
+  assert (Ov : oval m2 (St r1) = Some xw) by (rewrite (oval_st w cmem m2 r1 (lo_i1 w R lo m2 (rp_regs w R lo S s m2 Rp2))), Bv; reflexivity).
+  pose proof (store_word_runs _ m2 (St r1) _ _ Cq Ov (rp_regs w R lo S s m2 Rp2) O1 O3) as Rs.
+  destruct (rep_set_int S s m2 i _ Wf Rp2 Hi Rx) as [Rp3 Fa]. rewrite Sx in Rp3.
+  eexists. split; [|split; [exact Rp3|]].
+  - rewrite size_app. cbn [size]. change (@nil event) with (@nil event ++ []).
+    eapply runs_trans; [exact Rn|]. replace (p + (size c + (1 + 0))) with (p + size c + 1) by lia. exact Rs.
+  - apply (fagree_trans w R lo fb Hw m m2); [exact L | apply (agree_fagree w R lo fb S s m m2 Wf Rp A) | exact Fa].
+Qed.
+
+(* ---------- return;  return o; ---------- *)
+Lemma return_runs S s m r p : wf_senv S -> rep S s m ->
+  match r with Some o => oscoped w (length (ioffs S)) o /\ need_int S o false <= FP m - lo | None => True end ->
+  plc (lower_return S r) p ->
+  exists m', runs (mk p m) [] (mk (lw m (FP m - w)) m') /\ agree w R lo (FP m) m m' /\
+             match r with Some o => sgn (lw m' (FP m - w)) = ieval w s o | None => True end.
+Proof.
+  intros Wf Rp Hr P. pose proof (rp_regs w R lo S s m Rp) as L. pose proof (wfs_w w fb S Wf) as Ews.
+  pose proof (wfs_fb w fb S Wf) as Ofb. rewrite Hfb in Ofb.
+  assert (Hlo : 0 <= lo) by (destruct L; lia).
+  assert (Ow : 0 < w <= W / 2) by (destruct Rp; lia).
+  (* the tail: lwso [r1],[fp],-w ... j [r1]; halt, from a memory m2 that agrees with m below the stack top *)
+  assert (Tail : forall m2 q, agree w R lo (FP m - top S) m m2 -> code q = Some (ILoadO WWord SState (St r1) (St fp) (Imm (- w))) ->
+            let m3 := sw m2 r1 (lw m (FP m - w)) in
+            runs (mk q m2) [] (mk (q + 1) m3) /\ agree w R lo (FP m - top S) m m3 /\ regs_ok w R lo m3 /\ FP m3 = FP m /\
+            lw m3 r1 = lw m (FP m - w)).
+  { intros m2 q A Cl m3.
+    pose proof (regs_ok_agree w R lo Hw _ m m2 L A) as L2. pose proof (FP_agree w R lo Hw _ m m2 L A) as F2.
+    assert (I2 : inb m2 (FP m2 - w) w = true) by (rewrite F2, (agree_inb w R lo _ m m2 _ _ A); apply inb_true; destruct Rp; lia).
+    pose proof (act_lwso w code cmem _ m2 r1 (St fp) (Imm (- w)) (FP m2) (wrap (- w)) Cl
+                  (oval_st w cmem m2 _ (lo_if w R lo m2 L2)) (oval_imm w cmem m2 _)) as Al.
+    rewrite (frame_addr w R lo Hw m2 w L2 Ow) in Al. specialize (Al I2 (lo_i1 w R lo m2 L2)).
+    assert (Era : lw m2 (FP m2 - w) = lw m (FP m - w)).
+    { rewrite F2. apply (agree_lw w R lo Hw (FP m - top S) m m2); [exact A | destruct Rp; lia |]. unfold dj. destruct L, Rp. lia. }
+    rewrite Era in Al.
+    assert (A3 : agree w R lo (FP m - top S) m m3).
+    { eapply (agree_trans w R lo); [exact A|]. apply (agree_sw w R lo Hw); [apply (lo_r1 w R lo m2 L2) | auto]. }
+    split; [apply (runs_next act _ _ None Al)|]. split; [exact A3|].
+    split; [apply (regs_ok_agree w R lo Hw _ m m3 L A3)|]. split; [apply (FP_agree w R lo Hw _ m m3 L A3)|].
+    unfold m3. rewrite (lw_sw_same w Hw1) by apply (lo_r1 w R lo m2 L2). apply (wrap_small w), (lw_range w Hw1), (lo_wf w R lo m L). }
+  assert (Jump : forall m4 q, regs_ok w R lo m4 -> lw m4 r1 = lw m (FP m - w) -> code q = Some (IJ (St r1)) -> code (q + 1) = Some IHalt ->
+            runs (mk q m4) [] (mk (lw m (FP m - w)) m4)).
+  { intros m4 q L4 V Cj Ch. pose proof (goto_reg w code cmem q m4 r1 Cj Ch (lo_i1 w R lo m4 L4)) as G. rewrite V in G. exact G. }
+  destruct r as [o|]; cbn [lower_return] in P.
+  - destruct Hr as [Sc Hn].
+    destruct (eval_opd (env_of S) (top S) R0 o false) as [c0 bub] eqn:Ev. destruct (pop_value R0 bub) as [c1 v] eqn:Pv.
+    rewrite app_assoc in P. apply placed_app in P. destruct P as [P1 P2].
+    cbn [placed res_ins res_sym regaddr] in P2. destruct P2 as [Cl [Cs [Cj [Ch _]]]]. rewrite Ews in Cl, Cs.
+    destruct (get_value_runs S s m R0 o c0 bub c1 v p (or_introl eq_refl) Wf Rp Sc Hn Ev Pv P1) as [m2 [Rn [A [Ov Vs]]]].
+    destruct (sval_ieval S s m o Wf Rp Sc) as [Sv Rv].
+    destruct (Tail m2 _ A Cl) as [R3 [A3 [L3 [F3 V3]]]]. set (m3 := sw m2 r1 (lw m (FP m - w))) in *.
+    assert (Ov3 : oval m3 (rs v) = Some (wval w R (env_of S) m o)).
+    { destruct Vs as [[z ->] | ->]; [exact Ov|]. cbn [res_sym regaddr] in Ov |- *. rewrite <- Ov. unfold m3.
+      pose proof (regs_ok_agree w R lo Hw _ m m2 L A) as L2.
+      apply (oval_st_sw_other w Hw cmem); [apply (lo_r1 w R lo m2 L2) | apply (lo_r0 w R lo m2 L2) | destruct L2; lia]. }
+    assert (I3 : inb m3 (FP m3 - w) w = true) by (rewrite F3, (agree_inb w R lo _ m m3 _ _ A3); apply inb_true; destruct Rp; lia).
+    pose proof (store_word_runs _ m3 (rs v) _ w Cs Ov3 L3 Ow I3) as Rs. rewrite F3 in Rs.
+    set (m4 := sw m3 (FP m - w) (wval w R (env_of S) m o)) in *.
+    assert (A34 : agree w R lo (FP m) m3 m4) by (apply (agree_sw w R lo Hw); [destruct Rp; lia | right; right; destruct Rp; lia]).
+    assert (A4 : agree w R lo (FP m) m m4).
+    { eapply (agree_trans w R lo); [|exact A34]. apply (agree_mono w R lo (FP m - top S)); [lia | exact A3]. }
+    assert (L4 : regs_ok w R lo m4) by (apply (regs_ok_agree w R lo Hw _ m m4 L A4)).
+    assert (V4 : lw m4 r1 = lw m (FP m - w)).
+    { rewrite <- V3. unfold m4. apply (lw_sw_other w Hw1); [destruct Rp; lia | apply (lo_r1 w R lo m3 L3) | destruct L3, Rp; lia]. }
+    exists m4. split; [|split; [exact A4|]].
+    + change (@nil event) with (@nil event ++ ([] ++ ([] ++ []))).
+      eapply runs_trans; [exact Rn|]. eapply runs_trans; [exact R3|]. eapply runs_trans; [exact Rs|].
+      apply (Jump m4 _ L4 V4); [exact Cj | exact Ch].
+    + unfold m4. rewrite (lw_sw_same w Hw1) by (destruct Rp; lia). rewrite (wrap_small w _ Rv). exact Sv.
+  - cbn [placed res_ins res_sym regaddr] in P. destruct P as [Cl [Cj [Ch _]]]. rewrite Ews in Cl.
+    destruct (Tail m p (agree_refl w R lo _ m) Cl) as [R3 [A3 [L3 [F3 V3]]]].
+    eexists. split; [|split; [apply (agree_mono w R lo (FP m - top S)); [lia | exact A3] | exact I]].
+    change (@nil event) with (@nil event ++ []). eapply runs_trans; [exact R3|]. apply (Jump _ _ L3 V3); [exact Cj | exact Ch].
+Qed.
+
+(* ---------- calls of the program's functions ---------- *)
+(* the arguments, pushed one word each below the return address *)
+Lemma push_args_runs args : forall S s m p, wf_senv S -> rep S s m -> Forall (oscoped w (length (ioffs S))) args ->
+  need_args S args <= FP m - lo -> plc (push_args S args) p ->
+  exists m', runs (mk p m) [] (mk (p + size (push_args S args)) m') /\ agree w R lo (FP m - top S) m m' /\
+    forall k, (k < length args)%nat ->
+      sgn (lw m' (FP m - (top S + (Z.of_nat k + 1) * w))) = ieval w s (nth k args (OLit 0)).
+Proof.
+  induction args as [|o r IH]; intros S s m p Wf Rp Sc Hn P.
+  - exists m. cbn [push_args size]. replace (p + 0) with p by lia. split; [apply runs_refl|].
+    split; [apply agree_refl|]. intros k Hk. inversion Hk.
+  - cbn [push_args need_args] in *. inversion Sc as [|x0 l0 So Sr]; subst x0 l0.
+    apply need_max in Hn. destruct Hn as [Hn Hnr]. apply need_max in Hn. destruct Hn as [Hn1 Hn2].
+    pose proof (wfs_w w fb S Wf) as Ews. rewrite Ews in Hn2.
+    apply placed_app in P. destruct P as [P1 P2].
+    destruct (decl_int_runs S s m o p Wf Rp So Hn1 Hn2 P1) as [m1 [R1 [Rp1 A1]]].
+    pose proof (rep_after_ra S s m m1 Wf Rp A1 Hn2) as Rpa. pose proof (wf_after_ra S Wf) as Wfa.
+    pose proof (rp_regs w R lo S s m Rp) as L. pose proof (FP_agree w R lo Hw _ m m1 L A1) as F1.
+    pose proof (regs_ok_agree w R lo Hw _ m m1 L A1) as L1.
+    destruct (IH (after_ra S) s m1 (p + size (decl_int S o)) Wfa Rpa Sr ltac:(rewrite F1; exact Hnr) P2) as [m2 [R2 [A2 V2]]].
+    cbn [after_ra top] in A2, V2. rewrite Ews, F1 in A2, V2.
+    exists m2. split; [|split].
+    + rewrite size_app. change (@nil event) with (@nil event ++ []). eapply runs_trans; [exact R1|].
+      replace (p + (size (decl_int S o) + size (push_args (after_ra S) r))) with (p + size (decl_int S o) + size (push_args (after_ra S) r)) by lia.
+      exact R2.
+    + eapply (agree_trans w R lo); [exact A1|]. apply (agree_mono w R lo (FP m - (top S + w))); [lia | exact A2].
+    + intros k Hk. destruct k as [|k].
+      * cbn [nth]. change (Z.of_nat 0 + 1) with 1. rewrite Z.mul_1_l.
+        assert (E1 : sgn (lw m1 (FP m - (top S + w))) = ieval w s o).
+        { pose proof (rp_i w R lo (push_int S) _ m1 Rp1 (length (ioffs S))) as Ri. cbn [push_int ioffs si] in Ri.
+          rewrite app_length in Ri. cbn [length] in Ri. specialize (Ri ltac:(lia)).
+          rewrite nth_app_last, <- (rp_li w R lo S s m Rp), nth_app_last, Ews, F1 in Ri. exact Ri. }
+        rewrite <- E1. f_equal. apply (agree_lw w R lo Hw (FP m - (top S + w)) m1 m2 _ A2); [destruct L, Rp; lia|].
+        unfold dj. destruct L, Rp. lia.
+      * cbn [nth length] in *. specialize (V2 k ltac:(lia)). rewrite <- V2. f_equal. f_equal. lia.
+Qed.
+
+(* the callee's entry memory: fp rebased to the stack top of the caller *)
+Lemma entry_mem S s m0 mb : wf_senv S -> rep S s m0 -> agree w R lo (FP m0 - top S) m0 mb ->
+  let m1 := sw mb fp (FP m0 + wrap (- top S)) in
+  regs_ok w R lo m1 /\ FP m1 = FP m0 - top S /\ msize m1 = msize mb /\
+  (forall a, 0 <= a -> (a < fp \/ fp + w <= a) -> getb m1 a = getb mb a).
+Proof.
+  intros Wf Rp A m1. pose proof (rp_regs w R lo S s m0 Rp) as L0. pose proof (regs_ok_agree w R lo Hw _ m0 mb L0 A) as Lb.
+  pose proof (wfs_fb w fb S Wf) as Ofb.
+  assert (Efpc : wrap (FP m0 + wrap (- top S)) = FP m0 - top S) by (apply (wrap_add_neg w); destruct Rp, L0; lia).
+  assert (F1 : FP m1 = FP m0 - top S) by (unfold FP, m1; rewrite (lw_sw_same w Hw1) by apply (lo_fp w R lo mb Lb); exact Efpc).
+  split; [|split; [exact F1 | split; [apply msize_sw|]]].
+  - destruct Lb. constructor; try assumption; unfold m1; rewrite ?inb_sw; try assumption.
+    + apply (wf_sw w); assumption.
+    + fold m1. rewrite F1. destruct Rp, L0. lia.
+  - intros a Ha D. unfold m1. apply (getb_sw_other w Hw); [apply (lo_fp w R lo mb Lb) | exact Ha | lia].
+Qed.
+
+(* entering the callee *)
+Lemma call_enter S s m0 mb ec f p : wf_senv S -> rep S s m0 -> agree w R lo (FP m0 - top S) m0 mb ->
+  plc (call_seq S ec f) p ->
+  runs (mk p mb) [] (mk (lab (func_label f)) (sw mb fp (FP m0 + wrap (- top S)))).
+Proof.
+  intros Wf Rp A P. pose proof (rp_regs w R lo S s m0 Rp) as L0. pose proof (regs_ok_agree w R lo Hw _ m0 mb L0 A) as Lb.
+  pose proof (FP_agree w R lo Hw _ m0 mb L0 A) as Fb.
+  cbn [call_seq placed res_ins res_sym regaddr] in P. destruct P as [C0 [C1 [C2 _]]].
+  change (@nil event) with (@nil event ++ []). eapply runs_trans.
+  - apply (runs_next act _ _ None).
+    eapply (act_arith w code cmem); [exact C0 | apply oval_st, (lo_if w R lo mb Lb) | apply oval_imm | reflexivity | apply (lo_if w R lo mb Lb)].
+  - cbn [arith]. unfold FP in Fb. rewrite Fb.
+    pose proof (goto_label w code cmem _ (sw mb fp (FP m0 + wrap (- top S))) (lab (func_label f)) C1 C2) as G.
+    rewrite (wrap_small w _ (lab_range _)) in G. exact G.
+Qed.
+(* the whole call, given the callee's run from its entry memory: it returns to the pushed return
+   address, changing at most r0, r1, r2 and the stack below its frame pointer *)
+Lemma user_call_runs S s m0 mb ec f p evs (Qr : Z -> Prop) : wf_senv S -> rep S s m0 ->
+  agree w R lo (FP m0 - top S) m0 mb -> top S + w <= FP m0 - lo ->
+  lw mb (FP m0 - top S - w) = lab ec -> plc (call_seq S ec f) p ->
+  (exists m2, runs (mk (lab (func_label f)) (sw mb fp (FP m0 + wrap (- top S)))) (map EOut evs)
+                   (mk (lw (sw mb fp (FP m0 + wrap (- top S))) (FP m0 - top S - w)) m2) /\
+              agree w R lo (FP m0 - top S) (sw mb fp (FP m0 + wrap (- top S))) m2 /\ Qr (lw m2 (FP m0 - top S - w))) ->
+  exists m3, runs (mk p mb) (map EOut evs) (mk (p + size (call_seq S ec f)) m3) /\
+             agree w R lo (FP m0 - top S) m0 m3 /\ Qr (lw m3 (FP m0 - top S - w)).
+Proof.
+  intros Wf Rp A Hr Hra P [m2 [Rc [A2 Q2]]].
+  pose proof (rp_regs w R lo S s m0 Rp) as L0. pose proof (regs_ok_agree w R lo Hw _ m0 mb L0 A) as Lb.
+  pose proof (FP_agree w R lo Hw _ m0 mb L0 A) as Fb. pose proof (wfs_fb w fb S Wf) as Ofb.
+  destruct (entry_mem S s m0 mb Wf Rp A) as [L1 [F1 [Sz1 G1]]].
+  set (F := FP m0) in *. set (tp := top S) in *. set (m1 := sw mb fp (F + wrap (- tp))) in *.
+  assert (HF : 0 <= F < W / 2) by apply (lo_F w R lo m0 L0).
+  assert (HW : W / 2 < W) by (pose proof (W_even w Hw1); pose proof (half_pos w Hw1); lia).
+  cbn [call_seq placed res_ins res_sym regaddr] in P. destruct P as [C0 [C1 [C2 [Lec [C3 _]]]]].
+  assert (Efpc : wrap (F + wrap (- tp)) = F - tp) by (apply (wrap_add_neg w); destruct Rp, L0; unfold F, tp in *; lia).
+  assert (Ifp : inb mb fp w = true) by apply (lo_if w R lo mb Lb).
+  assert (Rfp : inrange w (lw mb fp)) by (apply (lw_range w Hw1); apply (lo_wf w R lo mb Lb)).
+  assert (Elf : lw mb fp = F) by exact Fb.
+  assert (Wfb : wf_mem mb) by apply (lo_wf w R lo mb Lb).
+  assert (Era : lw m1 (F - tp - w) = p + 3).
+  { unfold m1. rewrite (lw_sw_other w Hw1); [rewrite Hra, Lec; lia | apply (lo_fp w R lo mb Lb) | destruct Rp, L0; unfold F, tp in *; lia | destruct L0; destruct Rp; unfold F, tp in *; lia]. }
+  pose proof (regs_ok_agree w R lo Hw _ m1 m2 L1 A2) as L2. pose proof (FP_agree w R lo Hw _ m1 m2 L1 A2) as F2.
+  assert (L2fp : lw m2 fp = F - tp) by (unfold FP in F2, F1; rewrite F2; exact F1).
+  set (Pp := fun a => 0 <= a /\ ~ (r0 <= a < r0 + w) /\ ~ (r1 <= a < r1 + w) /\ ~ (lo <= a < F - tp) /\ ~ (a_r2 R <= a < a_r2 R + w) /\
+                      (a < fp \/ fp + w <= a)).
+  assert (Eov : oval m1 (Imm (lab (func_label f))) = Some (lab (func_label f))) by apply (oval_lab w cmem lab lab_range).
+  pose proof (call_idiom w Hw code cmem p mb fp (- tp) tp (Imm (lab (func_label f))) (lab (func_label f)) (map EOut evs) m2 Pp
+                C0 C1 ltac:(replace (p + 2) with (p + 1 + 1) by lia; exact C2)
+                ltac:(replace (p + 3) with (p + 1 + 1 + 1) by lia; exact C3) eq_refl (lo_fp w R lo mb Lb) Ifp Rfp) as CI.
+  cbv zeta in CI. rewrite Elf, Efpc in CI. fold m1 in CI. rewrite Era in CI.
+  assert (Rc' : runs (mk (lab (func_label f)) m1) (map EOut evs) (mk (p + 3) m2)) by (rewrite <- Era; exact Rc).
+  destruct A2 as [Sz2 [Wf2 G2]].
+  destruct (CI Eov eq_refl Rc' Sz2 L2fp) as [Rcall [Lf3 [HP3 F3]]].
+  { intros a [Pa [P0 [P1 [P2 [P3 _]]]]]. apply G2; assumption. }
+  { intros a [Pa [_ [_ [_ [_ Pd]]]]]. split; assumption. }
+  clear CI.
+  set (m3 := sw m2 fp (F - tp + wrap tp)) in *.
+  assert (E3 : m3 = sw m2 fp (lw mb fp)).
+  { unfold m3. apply sw_wrap_eq. rewrite <- (lw_sw_same w Hw1 m2 fp (F - tp + wrap tp)) by apply (lo_fp w R lo mb Lb).
+    fold m3. rewrite Lf3, Elf. symmetry. apply (wrap_small w). rewrite <- Elf. exact Rfp. }
+  assert (Ab : agree w R lo (F - tp) mb m3).
+  { split; [unfold m3; rewrite msize_sw, Sz2; exact Sz1|].
+    split; [intros _; unfold m3; apply (wf_sw w); [apply Wf2, (lo_wf w R lo m1 L1) | apply (lo_fp w R lo mb Lb)]|].
+    intros x X N0 N1 N2 N3.
+    destruct (Z_lt_le_dec x fp) as [Lt|Ge]; [|destruct (Z_lt_le_dec x (fp + w)) as [Lt2|Ge2]].
+    - rewrite HP3; [reflexivity|]. unfold Pp. repeat split; try assumption; lia.
+    - rewrite E3. apply sw_same_word_bytes; [exact Wfb | apply (lo_fp w R lo mb Lb) | lia].
+    - rewrite HP3; [reflexivity|]. unfold Pp. repeat split; try assumption; lia. }
+  exists m3. split; [|split].
+  - cbn [call_seq size]. replace (p + (1 + (1 + (1 + (1 + 0))))) with (p + 4) by lia. exact Rcall.
+  - eapply (agree_trans w R lo); eauto.
+  - replace (lw m3 (F - tp - w)) with (lw m2 (F - tp - w)); [exact Q2|]. symmetry. apply (lw_agree w Hw).
+    intros x Hx. apply F3; [destruct Rp, L0; unfold F, tp in *; lia | right; destruct Rp, L0; unfold F, tp in *; lia].
+Qed.
+
+(* ---------- environments grow along a statement list ---------- *)
 Definition extends (S S1 : senv) : Prop :=
   (exists l, ioffs S1 = ioffs S ++ l) /\ (exists l, boffs S1 = boffs S ++ l) /\ top S <= top S1 /\ ws S1 = ws S.
 Lemma extends_refl S : extends S S.
@@ -947,7 +1641,7 @@ Proof. split; [exists []; cbn; now rewrite app_nil_r|]. split; [eexists; reflexi
 Lemma rep_shrink S S1 s s1 m : extends S S1 ->
   length (si s) = length (ioffs S) -> length (sb s) = length (boffs S) -> rep S1 s1 m -> rep S (trunc s s1) m.
 Proof.
-  intros [[l El] [[k Ek] [Ht _]]] Li Lb Rp. destruct Rp as [Rg Rlo Rh Rsz Rli Rlb Ri Rb].
+  intros [[l El] [[k Ek] [Ht _]]] Li Lb Rp. destruct Rp as [Rg Rlo Rh Rsz Rli Rlb Ri Rb Rap].
   constructor; cbn [trunc si sb]; try assumption; try lia.
   - rewrite firstn_length, Rli, El, app_length. lia.
   - rewrite firstn_length, Rlb, Ek, app_length. lia.
@@ -964,67 +1658,94 @@ Lemma trunc_same_len s s' s1 : length (si s) = length (si s') -> length (sb s) =
 Proof. intros A B. unfold trunc. now rewrite A, B. Qed.
 
 (* static facts about the model *)
+Ltac destruct_lets :=
+  repeat match goal with
+  | |- context [add_label ?a ?b] => destruct (add_label a b)
+  | |- context [declare_bool ?a ?b ?c] => destruct (declare_bool a b c)
+  | |- context [assign_bool ?a ?b ?c ?d] => destruct (assign_bool a b c d)
+  | |- context [lower_branch ?a ?b ?c ?d ?e] => destruct (lower_branch a b c d e)
+  | |- context [lower_stmts ?a ?b ?c ?d] => destruct (lower_stmts a b c d) as [[[? ?] ?] ?]
+  end.
 Lemma lower_stmt_env S li s st : let '(_, S', _, _) := lower_stmt S li s st in S' = snd (need_stmt S s).
 Proof.
-  destruct s as [o|i o|e|j e|x| |c s1 s2|c b k|ss| |]; cbn [lower_stmt need_stmt snd]; try reflexivity.
-  - destruct (declare_bool (env_of S) e st); destruct e; reflexivity.
-  - destruct (assign_bool (env_of S) (nth j (boffs S) 0) e st). reflexivity.
-  - destruct x; reflexivity.
-  - destruct (add_label LElse st) as [l1 st1]. destruct (add_label LEndElse st1) as [l2 st2].
-    destruct (lower_branch (env_of S) c [] (goto l1) st2) as [cc st3].
-    destruct (lower_stmts S li s1 st3) as [[[c1 ?] st4] ?]. destruct (lower_stmts S li s2 st4) as [[[c2 ?] st5] ?]. reflexivity.
-  - destruct (add_label LLoop st) as [l1 st1]. destruct (add_label LContinue st1) as [l2 st2]. destruct (add_label LBreak st2) as [l3 st3].
-    destruct (lower_branch (env_of S) c [] (goto l3) st3) as [cc st4].
-    destruct (lower_stmts S (Some (l2, l3)) b st4) as [[[c1 ?] st5] ?]. destruct (lower_stmts S li k st5) as [[[c2 ?] st6] ?]. reflexivity.
-  - destruct (lower_stmts S li ss st) as [[[c ?] st'] ?]. reflexivity.
+  destruct s as [o|i o|e|j e|x| |ln o|ln e|c s1 s2|c b k|ss| | |op a b|i op a b|dst f args|r]; cbn [lower_stmt need_stmt need_bool_decl snd];
+    try reflexivity; try (destruct x; reflexivity); try (destruct r; reflexivity); destruct_lets; reflexivity.
 Qed.
 Lemma need_stmt_extends S s : 0 <= ws S -> extends S (snd (need_stmt S s)).
 Proof.
-  intros H. destruct s as [o|i o|e|j e|x| |c s1 s2|c b k|ss| |]; cbn [need_stmt snd]; try apply extends_refl.
+  intros H. destruct s as [o|i o|e|j e|x| |ln o|ln e|c s1 s2|c b k|ss| | |op a b|i op a b|dst f args|r]; cbn [need_stmt snd]; try apply extends_refl.
   - apply extends_push_int. exact H.
   - destruct e; apply extends_push_bool.
   - destruct x; apply extends_refl.
+  - apply extends_push_int. exact H.
+  - destruct dst; try apply extends_refl. apply extends_push_int. exact H.
+  - destruct r; apply extends_refl.
 Qed.
-Lemma lower_stmt_exited S li s st : let '(_, _, _, ex) := lower_stmt S li s st in ex = true -> s = SBreak \/ s = SContinue.
+Lemma lower_stmt_exited S li s st : let '(_, _, _, ex) := lower_stmt S li s st in ex = true -> exits s = true.
 Proof.
-  destruct s as [o|i o|e|j e|x| |c s1 s2|c b k|ss| |]; cbn [lower_stmt]; try (intros; discriminate); auto.
-  - destruct (declare_bool (env_of S) e st). intros; discriminate.
-  - destruct (assign_bool (env_of S) (nth j (boffs S) 0) e st). intros; discriminate.
-  - destruct (add_label LElse st) as [l1 st1]. destruct (add_label LEndElse st1) as [l2 st2].
-    destruct (lower_branch (env_of S) c [] (goto l1) st2) as [cc st3].
-    destruct (lower_stmts S li s1 st3) as [[[c1 ?] st4] ?]. destruct (lower_stmts S li s2 st4) as [[[c2 ?] st5] ?]. intros; discriminate.
-  - destruct (add_label LLoop st) as [l1 st1]. destruct (add_label LContinue st1) as [l2 st2]. destruct (add_label LBreak st2) as [l3 st3].
-    destruct (lower_branch (env_of S) c [] (goto l3) st3) as [cc st4].
-    destruct (lower_stmts S (Some (l2, l3)) b st4) as [[[c1 ?] st5] ?]. destruct (lower_stmts S li k st5) as [[[c2 ?] st6] ?]. intros; discriminate.
-  - destruct (lower_stmts S li ss st) as [[[c ?] st'] ?]. intros; discriminate.
+  destruct s as [o|i o|e|j e|x| |ln o|ln e|c s1 s2|c b k|ss| | |op a b|i op a b|dst f args|r]; cbn [lower_stmt exits]; try (intros; discriminate); auto;
+    destruct_lets; intros; discriminate.
 Qed.
 
 Definition in_loop (li : option (label * label)) : bool := match li with Some _ => true | None => false end.
-(* where a statement (list) leaves *)
-Definition exit_pc (li : option (label * label)) (out : outcome) (endp : Z) : option Z :=
+(* the stubs of the runtime library the faults go to *)
+Definition fault_off (ft : fault) : Z :=
+  match ft with FDivZero => off_division_by_zero | FStackOverflow => off_stack_overflow end.
+(* where a statement (list) leaves: its end, the loop labels, the return address of the function,
+   the fault stub *)
+Definition exit_pc (li : option (label * label)) (out : outcome) (endp ra : Z) : option Z :=
   match out, li with
   | ONormal, _ => Some endp
   | OBreak, Some (_, lb) => Some (lab lb)
   | OContinue, Some (lc, _) => Some (lab lc)
+  | OReturn _, _ => Some ra
+  | OFault ft, _ => Some (a_lib R + fault_off ft)
   | _, None => None
   end.
-Definition post (S S' : senv) (s s' : store) (out : outcome) (m' : mem) : Prop :=
+(* what may have changed: the frame below the return address; on return also the return-address
+   slot, which receives the result *)
+Definition frame_post (out : outcome) (m m' : mem) : Prop :=
+  match out with
+  | OReturn _ => agree w R lo (FP m) m m'
+  | OFault _ => True
+  | _ => fagree m m'
+  end.
+Definition post (S S' : senv) (s s' : store) (out : outcome) (m m' : mem) : Prop :=
   match out with
   | ONormal => rep S' s' m' /\ wf_senv S'
-  | _ => rep S (trunc s s') m'
+  | OBreak | OContinue => rep S (trunc s s') m'
+  | OReturn v => match v with Some x => sgn (lw m' (FP m - w)) = x | None => True end
+  | OFault _ => True
   end.
-Definition stmt_spec (s : stmt) (s0 : store) (evs : list Z) (out : outcome) (s1 : store) : Prop :=
+(* the frame holds exactly the return address and the locals in scope *)
+Definition tight (S : senv) : Prop := top S = w * (1 + Z.of_nat (length (ioffs S))) + Z.of_nat (length (boffs S)).
+Definition stmt_spec (d : Z) (s : stmt) (s0 : store) (evs : list Z) (out : outcome) (s1 : store) : Prop :=
   forall S li st C S' st' ex p m,
-    lower_stmt S li s st = (C, S', st', ex) -> plc C p -> wf_senv S -> rep S s0 m ->
-    sscoped w (length (ioffs S)) (length (boffs S)) (in_loop li) s -> fst (need_stmt S s) <= FP m - lo ->
-    exists m' pc', exit_pc li out (p + size C) = Some pc' /\
-      runs (mk p m) (map EOut evs) (mk pc' m') /\ fagree m m' /\ post S S' s0 s1 out m'.
-Definition stmts_spec (ss : stmts) (s0 : store) (evs : list Z) (out : outcome) (s1 : store) : Prop :=
+    lower_stmt S li s st = (C, S', st', ex) -> plc C p -> wf_senv S -> tight S -> rep S s0 m -> d = FP m - lo ->
+    sscoped w lib_hyps cf (length (ioffs S)) (length (boffs S)) (in_loop li) s -> fst (need_stmt S s) <= FP m - lo ->
+    exists m' pc', exit_pc li out (p + size C) (lw m (FP m - w)) = Some pc' /\
+      runs (mk p m) (map EOut evs) (mk pc' m') /\ frame_post out m m' /\ post S S' s0 s1 out m m'.
+Definition stmts_spec (d : Z) (ss : stmts) (s0 : store) (evs : list Z) (out : outcome) (s1 : store) : Prop :=
   forall S li st C S' st' ex p m,
-    lower_stmts S li ss st = (C, S', st', ex) -> plc C p -> wf_senv S -> rep S s0 m ->
-    ssscoped w (length (ioffs S)) (length (boffs S)) (in_loop li) ss -> need_stmts S ss <= FP m - lo ->
-    exists m' pc', exit_pc li out (p + size C) = Some pc' /\
-      runs (mk p m) (map EOut evs) (mk pc' m') /\ fagree m m' /\ post S S' s0 s1 out m'.
+    lower_stmts S li ss st = (C, S', st', ex) -> plc C p -> wf_senv S -> tight S -> rep S s0 m -> d = FP m - lo ->
+    ssscoped w lib_hyps cf (length (ioffs S)) (length (boffs S)) (in_loop li) ss -> need_stmts S ss <= FP m - lo ->
+    exists m' pc', exit_pc li out (p + size C) (lw m (FP m - w)) = Some pc' /\
+      runs (mk p m) (map EOut evs) (mk pc' m') /\ frame_post out m m' /\ post S S' s0 s1 out m m'.
+(* a call of function f from an entry memory: fp at the callee's frame, the return address below
+   it, then the arguments; d bytes of stack below fp *)
+Definition call_spec (d : Z) (f : nat) (vs : list Z) (evs : list Z) (res : cres) : Prop :=
+  forall m, lib_hyps -> cf f (length vs) -> regs_ok w R lo m -> d = FP m - lo -> 0 <= FP m - lo <= W / 2 -> FP m <= msize m ->
+    (ap_sep w R lo -> lw m (a_ap R) = lo) ->
+    (forall k, (k < length vs)%nat -> sgn (lw m (FP m - (Z.of_nat k + 2) * w)) = nth k vs 0) ->
+    exists m', match res with
+      | CRet v => runs (mk (lab (func_label f)) m) (map EOut evs) (mk (lw m (FP m - w)) m') /\ agree w R lo (FP m) m m' /\
+                  match v with Some x => sgn (lw m' (FP m - w)) = x | None => True end
+      | CFault ft => runs (mk (lab (func_label f)) m) (map EOut evs) (mk (a_lib R + fault_off ft) m')
+      end.
+(* every callable function is in the code: label, entry guard, body; its guard constant is a word *)
+Hypothesis cf_ok : forall f n, cf f n -> exists fd st, nth_error funs f = Some fd /\ fn_params fd = n /\
+  0 <= fun_need w fd < W / 2 /\ plc (fst (lower_fun w f fd st)) (lab (func_label f)) /\
+  ssscoped w lib_hyps cf n 0 false (fn_body fd).
 
 Lemma trunc_self s : trunc s s = s.
 Proof. destruct s as [a b]. unfold trunc; cbn [si sb]. now rewrite !firstn_all. Qed.
@@ -1033,7 +1754,7 @@ Lemma trunc_trunc s0 s1 s2 : (length (si s0) <= length (si s1))%nat -> (length (
 Proof. intros A B. unfold trunc; cbn [si sb]. rewrite !firstn_firstn. f_equal; f_equal; lia. Qed.
 Lemma trunc_idem s0 s1 : trunc s0 (trunc s0 s1) = trunc s0 s1.
 Proof. apply trunc_trunc; lia. Qed.
-Lemma exit_pc_exit li out e1 e2 : out <> ONormal -> exit_pc li out e1 = exit_pc li out e2.
+Lemma exit_pc_exit li out e1 e2 ra : out <> ONormal -> exit_pc li out e1 ra = exit_pc li out e2 ra.
 Proof. intros N. destruct out, li as [[? ?]|]; cbn; congruence. Qed.
 Lemma lower_stmts_extends ss : forall S li st, 0 <= ws S -> let '(_, S', _, _) := lower_stmts S li ss st in extends S S'.
 Proof.
@@ -1052,18 +1773,118 @@ Proof.
     (rp_li w R lo S1 s1 m1 Rp1), (rp_lb w R lo S1 s1 m1 Rp1), El, Ek, !app_length. lia.
 Qed.
 
-Ltac szn := repeat progress (rewrite ?size_app; cbn [size goto]).
-Ltac szn_in H := repeat progress (rewrite ?size_app in H; cbn [size goto] in H).
-(* close a goal `runs (mk a m) l (mk b m')` with G : runs (mk a' m) l (mk b' m'), a = a', b = b' by lia *)
-Ltac close_with G :=
-  szn; szn_in G;
-  match goal with |- HidV.Sphinx.Halts.runs _ (mk ?a _) _ _ =>
-    match type of G with HidV.Sphinx.Halts.runs _ (mk ?b _) _ _ => replace a with b by lia end end;
-  match goal with |- HidV.Sphinx.Halts.runs _ _ _ (mk ?a _) =>
-    match type of G with HidV.Sphinx.Halts.runs _ _ _ (mk ?b _) => replace a with b by lia end end;
-  exact G.
-Lemma need_max a b X : zmax a b <= X -> a <= X /\ b <= X.
-Proof. unfold zmax. lia. Qed.
+(* ---------- bookkeeping for the induction ---------- *)
+Lemma tight_step S s : wf_senv S -> tight S -> tight (snd (need_stmt S s)).
+Proof.
+  intros Wf T. pose proof (wfs_w w fb S Wf) as Ews. unfold tight in *.
+  destruct s as [o|i o|e|j e|x| |ln o|ln e|c s1 s2|c b k|ss| | |op a b|i op a b|dst f args|r];
+    cbn [need_stmt need_bool_decl snd]; try exact T; try (destruct x; exact T); try (destruct r; exact T);
+    try (destruct dst; try exact T); cbn [push_int push_bool top ioffs boffs]; rewrite ?app_length; cbn [length]; rewrite ?Ews; lia.
+Qed.
+Lemma need_stmts_ge_top ss : forall S, 0 <= ws S -> top S <= need_stmts S ss.
+Proof.
+  induction ss as [|s r IH]; intros S Hws; cbn [need_stmts]; [lia|].
+  pose proof (need_stmt_extends S s Hws) as X. destruct (need_stmt S s) as [n S1]. cbn [snd] in X.
+  destruct X as [_ [_ [Ht Ew]]]. specialize (IH S1 ltac:(lia)). unfold zmax. lia.
+Qed.
+(* a prefix that keeps the frame (condition evaluation, earlier statements) before a run *)
+Lemma frame_post_pre out m m1 m2 : regs_ok w R lo m -> fagree m m1 -> frame_post out m1 m2 -> frame_post out m m2.
+Proof.
+  intros L A B. pose proof (FP_agree w R lo Hw _ m m1 L A) as F1.
+  destruct out; cbn [frame_post] in *; try exact I; try (apply (fagree_trans w R lo fb Hw m m1 m2 L A B)).
+  rewrite F1 in B. eapply (agree_trans w R lo); [|exact B]. apply (agree_mono w R lo (FP m - fb)); [lia | exact A].
+Qed.
+Lemma frame_post_normal_pre out m m1 m2 : regs_ok w R lo m -> frame_post ONormal m m1 -> frame_post out m1 m2 -> frame_post out m m2.
+Proof. intros L A B. apply (frame_post_pre out m m1 m2 L A B). Qed.
+(* the return address is not touched by code that keeps the frame *)
+Lemma ra_fagree S s m m1 : wf_senv S -> rep S s m -> fagree m m1 -> lw m1 (FP m1 - w) = lw m (FP m - w).
+Proof.
+  intros Wf Rp A. pose proof (rp_regs w R lo S s m Rp) as L. rewrite (FP_agree w R lo Hw _ m m1 L A).
+  pose proof (wfs_fb w fb S Wf) as Ofb.
+  apply (agree_lw w R lo Hw (FP m - fb) m m1 _ A); [destruct L, Rp; lia|]. unfold dj. destruct L, Rp. lia.
+Qed.
+(* a non-normal outcome of an inner statement list, seen from the enclosing statement *)
+Lemma post_exit S S1 S' s s' out m m1 m2 : out <> ONormal -> FP m1 = FP m ->
+  post S S1 s s' out m1 m2 -> post S S' s (trunc s s') out m m2.
+Proof.
+  intros N F Po. destruct out; cbn [post] in *; try exact I; try (rewrite trunc_idem; exact Po); [contradiction | rewrite <- F; exact Po].
+Qed.
+
+(* ---------- the frame of a function and its entry memory ---------- *)
+Lemma nth_fun_ioffs n i : (i < n)%nat -> nth i (ioffs (is_you_senv w n)) 0 = (Z.of_nat i + 2) * w.
+Proof.
+  intros Hi. cbn [is_you_senv ioffs].
+  rewrite (nth_indep _ 0 ((Z.of_nat 0 + 2) * w)) by (rewrite map_length, seq_length; exact Hi).
+  rewrite (map_nth (fun i => (Z.of_nat i + 2) * w) (seq 0 n) 0%nat i), seq_nth by exact Hi. reflexivity.
+Qed.
+Lemma wf_fun_senv n : wf_senv (is_you_senv w n).
+Proof.
+  assert (Ln : length (ioffs (is_you_senv w n)) = n) by (cbn [is_you_senv ioffs]; now rewrite map_length, seq_length).
+  constructor; rewrite ?Ln; cbn [is_you_senv ws top boffs length]; rewrite ?Hfb; try reflexivity; try lia.
+  - intros i Hi. rewrite (nth_fun_ioffs n i Hi). nia.
+  - intros i i' Hi Hi' Ne. rewrite (nth_fun_ioffs n i Hi), (nth_fun_ioffs n i' Hi'). nia.
+Qed.
+Lemma tight_fun_senv n : tight (is_you_senv w n).
+Proof. unfold tight. cbn [is_you_senv top ioffs boffs length]. rewrite map_length, seq_length. lia. Qed.
+Lemma rep_fun_entry n vs m : length vs = n -> regs_ok w R lo m -> (Z.of_nat n + 1) * w <= FP m - lo ->
+  0 <= FP m - lo <= W / 2 -> FP m <= msize m -> (ap_sep w R lo -> lw m (a_ap R) = lo) ->
+  (forall k, (k < n)%nat -> sgn (lw m (FP m - (Z.of_nat k + 2) * w)) = nth k vs 0) ->
+  rep (is_you_senv w n) (mkstore vs []) m.
+Proof.
+  intros Lv L Hr Hh Hs Hap Hv.
+  assert (Ln : length (ioffs (is_you_senv w n)) = n) by (cbn [is_you_senv ioffs]; now rewrite map_length, seq_length).
+  constructor; rewrite ?Ln; cbn [si sb]; try assumption; try (cbn [is_you_senv top]; lia); try reflexivity.
+  - intros i Hi. rewrite (nth_fun_ioffs n i Hi). apply Hv. exact Hi.
+  - intros j Hj. cbn [is_you_senv boffs length] in Hj. lia.
+Qed.
+
+(* outcomes that leave the function do not look at the loop labels *)
+Lemma exit_pc_leaves li li' out e e' ra : leaves out -> exit_pc li out e ra = exit_pc li' out e' ra.
+Proof. destruct out; cbn [leaves]; intros H; try contradiction; destruct li as [[? ?]|], li' as [[? ?]|]; reflexivity. Qed.
+Lemma leaves_not_normal out : leaves out -> out <> ONormal.
+Proof. destruct out; cbn; intros H; try contradiction; discriminate. Qed.
+(* the same run seen from a store of the same shape and a memory with the same frame pointer *)
+Lemma post_rebase S S' s sa s' out m ma m' : length (si sa) = length (si s) -> length (sb sa) = length (sb s) -> FP ma = FP m ->
+  post S S' sa s' out ma m' -> post S S' s s' out m m'.
+Proof.
+  intros Li Lb F Po. destruct out; cbn [post] in *; try exact Po; try (rewrite (trunc_same_len s sa s') by (symmetry; assumption); exact Po).
+  rewrite <- F. exact Po.
+Qed.
+Lemma lib_ap_sep m : lib_hyps -> regs_ok w R lo m -> ap_sep w R lo.
+Proof. intros [Hfp [H0 [H1 [H2 [_ [_ Hap]]]]]] L. destruct L. unfold ap_sep. rewrite Hap, H0, H1, H2 in *. lia. Qed.
+(* the result of a call (at frame offset top + w, where the return address was) assigned to local i *)
+Lemma fetch_result_runs S s m i x q : wf_senv S -> rep S s m -> (i < length (ioffs S))%nat -> top S + w <= FP m - lo ->
+  sgn (lw m (FP m - (top S + w))) = x ->
+  plc [AInstr (ALwso R1 (SReg RFp) (SLit (- (top S + ws S)))); AInstr (ASwso (SReg RFp) (SLit (- nth i (ioffs S) 0)) (SReg R1))] q ->
+  exists m', runs (mk q m) [] (mk (q + 2) m') /\ rep S (mkstore (upd i x (si s)) (sb s)) m' /\ fagree m m'.
+Proof.
+  intros Wf Rp Hi Hr Hx P. pose proof (rp_regs w R lo S s m Rp) as L. pose proof (wfs_w w fb S Wf) as Ews.
+  pose proof (wfs_fb w fb S Wf) as Ofb. assert (Hlo : 0 <= lo) by (destruct L; lia).
+  cbn [placed res_ins res_sym regaddr] in P. destruct P as [Cl [Cs _]]. rewrite Ews in Cl.
+  assert (Ho : 0 < top S + w <= W / 2) by (destruct Rp; lia).
+  assert (I0 : inb m (FP m - (top S + w)) w = true) by (apply inb_true; destruct Rp; lia).
+  pose proof (act_lwso w code cmem _ m r1 (St fp) (Imm (- (top S + w))) (FP m) (wrap (- (top S + w))) Cl
+                (oval_st w cmem m _ (lo_if w R lo m L)) (oval_imm w cmem m _)) as Al.
+  rewrite (frame_addr w R lo Hw m (top S + w) L Ho) in Al. specialize (Al I0 (lo_i1 w R lo m L)).
+  set (xw := lw m (FP m - (top S + w))) in *. set (m1 := sw m r1 xw) in *.
+  assert (Rx : inrange w xw) by (apply (lw_range w Hw1), (lo_wf w R lo m L)).
+  assert (A1 : agree w R lo (FP m - top S) m m1) by (apply (agree_sw w R lo Hw); [apply (lo_r1 w R lo m L) | auto]).
+  pose proof (rep_agree w R lo fb Hw S s m m1 Wf Rp A1) as Rp1. pose proof (rp_regs w R lo S s m1 Rp1) as L1.
+  pose proof (FP_agree w R lo Hw _ m m1 L A1) as F1.
+  destruct (rep_slot_i w R lo fb Hw S s m1 i (FP m1 - top S) Wf Rp1 Hi ltac:(lia)) as [O1 [O2 [O3 _]]].
+  assert (Ov : oval m1 (St r1) = Some xw).
+  { rewrite (oval_st w cmem m1 r1 (lo_i1 w R lo m1 L1)). unfold m1. rewrite (lw_sw_same w Hw1) by apply (lo_r1 w R lo m L).
+    now rewrite (wrap_small w _ Rx). }
+  pose proof (store_word_runs _ m1 (St r1) _ _ Cs Ov L1 O1 O3) as Rs.
+  destruct (rep_set_int S s m1 i _ Wf Rp1 Hi Rx) as [Rp3 Fa]. rewrite Hx in Rp3.
+  eexists. split; [|split; [exact Rp3|]].
+  - change (@nil event) with (@nil event ++ []). eapply runs_trans; [apply (runs_next act _ _ None Al)|].
+    replace (q + 2) with (q + 1 + 1) by lia. exact Rs.
+  - apply (fagree_trans w R lo fb Hw m m1); [exact L | apply (agree_fagree w R lo fb S s m m1 Wf Rp A1) | exact Fa].
+Qed.
+(* the stack in use is the frame the environment describes *)
+Lemma tight_frame_top S s m : tight S -> rep S s m -> frame_top w s = top S.
+Proof. intros T Rp. unfold frame_top. rewrite (rp_li w R lo S s m Rp), (rp_lb w R lo S s m Rp). symmetry. exact T. Qed.
 
 Theorem stmts_runs :
   (forall s s0 evs out s1, exec w s s0 evs out s1 -> stmt_spec s s0 evs out s1) /\
@@ -1074,7 +1895,7 @@ Proof.
     intros o s S li st C S' st' ex p m Ev P Wf Rp Sc Hn. cbn [lower_stmt] in Ev. inversion Ev; subst C S' st' ex; clear Ev.
     cbn [need_stmt fst sscoped] in *. apply need_max in Hn. destruct Hn as [Hn1 Hn2]. rewrite (wfs_w w fb S Wf) in Hn2.
     destruct (decl_int_runs S s m o p Wf Rp Sc Hn1 Hn2 P) as [m' [Rn [Rp' Fa]]].
-    exists m', (p + size (decl_int S o)). split; [reflexivity|]. split; [exact Rn|]. split; [exact Fa|].
+    exists m', (p + size (decl_int S o)). split; [reflexivity|]. split; [exact Rn|]. split; [apply (agree_fagree w R lo fb S s m m' Wf Rp Fa)|].
     split; [exact Rp' | apply wf_push_int; exact Wf].
   - (* xi = o *)
     intros i o s Hi S li st C S' st' ex p m Ev P Wf Rp Sc Hn. cbn [lower_stmt] in Ev. inversion Ev; subst C S' st' ex; clear Ev.
@@ -1086,7 +1907,7 @@ Proof.
     destruct (declare_bool (env_of S) e st) as [c st1] eqn:Ed. inversion Ev; subst C S' st' ex; clear Ev.
     cbn [sscoped] in Sc.
     destruct (declare_bool_runs S s m e st c st1 p Wf Rp Sc Hn Ed P) as [m' [Rn [Rp' Fa]]].
-    exists m', (p + size c). split; [reflexivity|]. split; [exact Rn|]. split; [exact Fa|].
+    exists m', (p + size c). split; [reflexivity|]. split; [exact Rn|]. split; [apply (agree_fagree w R lo fb S s m m' Wf Rp Fa)|].
     split; [exact Rp' | apply wf_push_bool; exact Wf].
   - (* pj = e *)
     intros j e s Hj S li st C S' st' ex p m Ev P Wf Rp Sc Hn. cbn [lower_stmt] in Ev.
@@ -1107,6 +1928,19 @@ Proof.
     + cbn [size map]. replace (p + (1 + 0)) with (p + 1) by lia.
       pose proof (yield_runs p m (Imm 10) (wrap 10) Cy (oval_imm w cmem m 10)) as Y. rewrite wrap_mod256 in Y. exact Y.
     + split; [apply fagree_refl|]. split; assumption.
+  - (* write(int) *)
+    intros ln o s S li st C S' st' ex p m Ev P Wf Rp Sc Hn. cbn [lower_stmt] in Ev.
+    destruct (add_label LEndCall st) as [ec st1]. inversion Ev; subst C S' st' ex; clear Ev.
+    cbn [sscoped] in Sc. destruct Sc as [So Hl].
+    destruct (writei_runs S s m ln o ec p Hl Wf Rp So Hn P) as [m' [Rn [Rp' Fa]]].
+    eexists m', _. split; [reflexivity|]. split; [exact Rn|]. split; [exact Fa|]. split; assumption.
+  - (* write(bool) *)
+    intros ln e s S li st C S' st' ex p m Ev P Wf Rp Sc Hn. cbn [lower_stmt] in Ev.
+    destruct (add_label LEndCall st) as [ec st1]. destruct (declare_bool (env_of (after_ra S)) e st1) as [c st2] eqn:Ed.
+    inversion Ev; subst C S' st' ex; clear Ev.
+    cbn [sscoped] in Sc. destruct Sc as [Se Hl].
+    destruct (writeb_runs S s m ln e ec st1 c st2 p Hl Wf Rp Se Hn Ed P) as [m' [Rn [Rp' Fa]]].
+    eexists m', _. split; [reflexivity|]. split; [exact Rn|]. split; [exact Fa|]. split; assumption.
   - (* if *)
     intros c s1 s2 s evs out s' Hx IH S li st C S' st' ex p m Ev P Wf Rp Sc Hn. cbn [lower_stmt] in Ev.
     destruct (add_label LElse st) as [el st1]. destruct (add_label LEndElse st1) as [ee st2].
@@ -1298,9 +2132,9 @@ Proof.
     pose proof (rp_regs w R lo S s0 m Rp) as L. pose proof (FP_agree w R lo Hw _ m m1 L Fa1) as F1.
     assert (X1 : extends S S1).
     { pose proof (need_stmt_extends S s ltac:(rewrite (wfs_w w fb S Wf); lia)) as X. rewrite En in X. exact X. }
-    assert (Scr' : ssscoped w (length (ioffs S1)) (length (boffs S1)) (in_loop li) r).
+    assert (Scr' : ssscoped w lib_hyps (length (ioffs S1)) (length (boffs S1)) (in_loop li) r).
     { assert (Es : S1 = snd (need_stmt S s)) by (rewrite En; reflexivity).
-      destruct s as [o|i o|e|j e|x| |c0 t1 t2|c0 b k|ss| |]; try destruct x; cbn [need_stmt snd] in Es; subst S1;
+      destruct s as [o|i o|e|j e|x| |ln o|ln e|c0 t1 t2|c0 b k|ss| |]; try destruct x; cbn [need_stmt need_bool_decl snd] in Es; subst S1;
         cbn [push_int push_bool ioffs boffs]; rewrite ?app_length; cbn [length]; rewrite ?Nat.add_1_r; exact Scr. }
     destruct (IH2 S1 li st1 cr S2 st2 ex2 (p + size c) m1 E2 Pr Wf1 Rp1 Scr' ltac:(rewrite F1; exact Hnr))
       as [m2 [pc2 [Ex2 [Rn2 [Fa2 Po2]]]]].
@@ -1415,6 +2249,29 @@ Proof.
     destruct (assign_bool (env_of S) (nth j (boffs S) 0) e st) as [c st1] eqn:Ea. inversion Ev; subst. apply (assign_bool_defs _ _ _ _ _ _ Ea).
   - intros x S li st C S' st' ex Ev. cbn [lower_stmt] in Ev. inversion Ev; subst. apply defs_ok_nil, lower_write_nolabels.
   - intros S li st C S' st' ex Ev. cbn [lower_stmt] in Ev. inversion Ev; subst. apply defs_ok_nil. reflexivity.
+  - (* write(int) *)
+    intros ln o S li st C S' st' ex Ev. cbn [lower_stmt] in Ev.
+    pose proof (add_label_le LEndCall st) as M1. pose proof (single_blk LEndCall st) as B1.
+    destruct (add_label LEndCall st) as [ec st1]. cbn [fst snd] in M1, B1. inversion Ev; subst C S' st' ex; clear Ev.
+    assert (Eq : forall X, X = [push_ra S ec] ++ decl_int (after_ra S) o ++ call_tail S ec LibWriteInt ln -> deflabels X = [ec]).
+    { intros X ->. unfold call_tail. defl. rewrite decl_int_nolabels. destruct ln; reflexivity. }
+    unfold defs_ok. match goal with |- context [deflabels ?X] => rewrite !(Eq X eq_refl) end.
+    cbn [blk_ok] in B1. destruct B1 as [F1 D1]. split; [exact M1|]. split; assumption.
+  - (* write(bool) *)
+    intros ln e S li st C S' st' ex Ev. cbn [lower_stmt] in Ev.
+    pose proof (add_label_le LEndCall st) as M1. pose proof (single_blk LEndCall st) as B1.
+    destruct (add_label LEndCall st) as [ec st1]. cbn [fst snd] in M1, B1.
+    destruct (declare_bool (env_of (after_ra S)) e st1) as [c st2] eqn:Ed. destruct (declare_bool_defs _ _ _ _ _ Ed) as [M2 [F2 D2]].
+    inversion Ev; subst C S' st' ex; clear Ev.
+    set (bs := [(st1, st2, deflabels c); (st, st1, [ec])]).
+    assert (Eq : forall X, X = [push_ra S ec] ++ c ++ call_tail S ec LibWriteBool ln -> deflabels X = flat_map blk_labels bs).
+    { intros X ->. unfold call_tail. defl. cbn [flat_map bs blk_labels snd app]. destruct ln; cbn [deflabels app]; now rewrite ?app_nil_r. }
+    assert (Ok : Forall blk_ok bs) by (unfold bs; repeat (apply Forall_cons; [first [exact B1 | (split; assumption)]|]); apply Forall_nil).
+    unfold defs_ok. match goal with |- context [deflabels ?X] => rewrite !(Eq X eq_refl) end. split; [stle|]. split.
+    + apply blocks_between; [exact Ok|]. unfold bs. repeat (apply Forall_cons; [split; stle|]). apply Forall_nil.
+    + apply blocks_nodup; [exact Ok|]. unfold bs.
+      repeat (apply FOP_cons; [repeat (apply Forall_cons; [cbn [blk_sep]; first [left; stle | right; stle]|]); apply Forall_nil|]).
+      apply FOP_nil.
   - (* if *)
     intros c s1 IH1 s2 IH2 S li st C S' st' ex Ev. cbn [lower_stmt] in Ev.
     pose proof (add_label_le LElse st) as M1. pose proof (single_blk LElse st) as B1.
@@ -1492,7 +2349,7 @@ Theorem stmts_lowering_correct_gen ss s0 evs out s1 S li st B m :
   code_at code B (resolve R ext B C) -> 0 <= B -> B + size C < Machine.W w ->
   match li with Some (lc, lb) => below st lc /\ below st lb | None => True end ->
   wf_senv w fb S -> rep w R lo S s0 m ->
-  ssscoped w (length (ioffs S)) (length (boffs S)) (match li with Some _ => true | None => false end) ss ->
+  ssscoped w (lib_hyps w R code) (length (ioffs S)) (length (boffs S)) (match li with Some _ => true | None => false end) ss ->
   need_stmts S ss <= FP m - lo ->
   exists m' pc',
     match out, li with
@@ -1528,7 +2385,7 @@ Theorem stmts_lowering_correct ss s0 evs s1 S st B m :
   let S' := snd (fst (fst r)) in
   code_at code B (resolve R ext B C) -> 0 <= B -> B + size C < Machine.W w ->
   wf_senv w fb S -> rep w R lo S s0 m ->
-  ssscoped w (length (ioffs S)) (length (boffs S)) false ss ->
+  ssscoped w (lib_hyps w R code) (length (ioffs S)) (length (boffs S)) false ss ->
   need_stmts S ss <= FP m - lo ->
   exists m', runs (mk B m) (map EOut evs) (mk (B + size C) m') /\
              rep w R lo S' s1 m' /\ wf_senv w fb S' /\ fagree w R lo fb m m'.
@@ -1545,7 +2402,7 @@ Corollary stmts_no_new_halt ss s0 evs s1 S st B m :
   let C := fst (fst (fst (lower_stmts S None ss st))) in
   code_at code B (resolve R ext B C) -> 0 <= B -> B + size C < Machine.W w ->
   wf_senv w fb S -> rep w R lo S s0 m ->
-  ssscoped w (length (ioffs S)) (length (boffs S)) false ss ->
+  ssscoped w (lib_hyps w R code) (length (ioffs S)) (length (boffs S)) false ss ->
   need_stmts S ss <= FP m - lo ->
   (forall m', ~ Halts (mk (B + size C) m')) -> ~ Halts (mk B m).
 Proof.
@@ -1561,7 +2418,7 @@ Theorem body_lowering_correct ss s0 evs s1 S st B m : w <= fb ->
   let C := fst (lower_body S ss st) in
   code_at code B (resolve R ext B C) -> 0 <= B -> B + size C < Machine.W w ->
   wf_senv w fb S -> rep w R lo S s0 m ->
-  ssscoped w (length (ioffs S)) (length (boffs S)) false ss ->
+  ssscoped w (lib_hyps w R code) (length (ioffs S)) (length (boffs S)) false ss ->
   need_stmts S ss <= FP m - lo ->
   let ra := Machine.lw w m (FP m - w) in
   exists m', runs (mk B m) (map EOut evs) (mk ra m') /\ fagree w R lo fb m m' /\ Machine.lw w m' (a_r1 R) = ra.
@@ -1620,6 +2477,8 @@ Fixpoint istmt (fuel : nat) (s : stmt) (s0 : store) : option (list Z * outcome *
     | SAssignB j e => if (j <? length (sb s0))%nat then Some ([], ONormal, mkstore (si s0) (upd j (b2z (bevals w s0 e)) (sb s0))) else None
     | SWrite x => Some ([wbyte w s0 x], ONormal, s0)
     | SWriteln => Some ([10], ONormal, s0)
+    | SWriteI ln o => Some (decimal (ieval w s0 o) ++ (if ln then [10] else []), ONormal, s0)
+    | SWriteB ln e => Some ((if bevals w s0 e then str_true else str_false) ++ (if ln then [10] else []), ONormal, s0)
     | SIf c s1 s2 =>
         match istmts f (if bevals w s0 c then s1 else s2) s0 with
         | Some (e, out, s') => Some (e, out, trunc s0 s')
@@ -1674,11 +2533,13 @@ Theorem interp_sound fuel :
   (forall ss s0 e out s1, istmts fuel ss s0 = Some (e, out, s1) -> execs w ss s0 e out s1).
 Proof.
   induction fuel as [|f [IHs IHss]]; [split; intros; discriminate|]. split.
-  - intros s s0 e out s1 H. destruct s as [o|i o|b|j b|x| |c t1 t2|c b k|ss| |]; cbn [istmt] in H.
+  - intros s s0 e out s1 H. destruct s as [o|i o|b|j b|x| |ln o|ln b|c t1 t2|c b k|ss| |]; cbn [istmt] in H.
     + inversion H; subst. constructor.
     + destruct (Nat.ltb_spec i (length (si s0))); [|discriminate]. inversion H; subst. constructor. assumption.
     + inversion H; subst. constructor.
     + destruct (Nat.ltb_spec j (length (sb s0))); [|discriminate]. inversion H; subst. constructor. assumption.
+    + inversion H; subst. constructor.
+    + inversion H; subst. constructor.
     + inversion H; subst. constructor.
     + inversion H; subst. constructor.
     + destruct (istmts f (if bevals w s0 c then t1 else t2) s0) as [[[e' out'] s']|] eqn:E; [|discriminate].
@@ -1749,7 +2610,7 @@ Definition sx_out : list Z := [54; 55; 10; 4].
 Definition sx_code : list aline := fst (lower_body sx_S sx_ss sx_st).
 Definition sx_ra : Z := size sx_code.            (* the caller: an absorbing stub right after the body *)
 Definition sx_ext (l : label) : Z := 0.
-Definition sx_prog : list instr := resolve (hidc_regs 2 62) sx_ext 0 sx_code ++ [IJ (Imm sx_ra); IHalt].
+Definition sx_prog : list instr := resolve (hidc_regs 2 62 200) sx_ext 0 sx_code ++ [IJ (Imm sx_ra); IHalt].
 (* fp = 60; return address at 58; a = 5 at 56, b = 7 at 54, c = 2 at 52 *)
 Definition sx_mem : mem :=
   Machine.sw 2 (Machine.sw 2 (Machine.sw 2 (Machine.sw 2 (Machine.sw 2 ex_zero 2 60) 58 sx_ra) 56 5) 54 7) 52 2.
@@ -1767,7 +2628,7 @@ Proof.
   - intros i i' Hi Hi' Ne. destruct i as [|[|[|]]]; try (cbn in Hi; lia); destruct i' as [|[|[|]]]; try (cbn in Hi'; lia);
       try congruence; carith.
 Qed.
-Lemma sx_rep : rep 2 (hidc_regs 2 62) 40 sx_S sx_s0 sx_mem.
+Lemma sx_rep : rep 2 (hidc_regs 2 62 200) 40 sx_S sx_s0 sx_mem.
 Proof.
   assert (Wfm : wf_mem sx_mem) by (unfold sx_mem; repeat (apply (wf_sw 2); [|lia]); apply wf_ex_zero).
   constructor; try reflexivity; try (vm_compute; intro; discriminate).
@@ -1775,7 +2636,7 @@ Proof.
   - intros i Hi. destruct i as [|[|[|]]]; cbn in Hi; try lia; vm_compute; reflexivity.
   - intros j Hj. cbn in Hj. lia.
 Qed.
-Lemma sx_scoped : ssscoped 2 3 0 false sx_ss.
+Lemma sx_scoped lib : ssscoped 2 lib 3 0 false sx_ss.
 Proof. cbn. repeat split; try lia; carith. Qed.
 
 (* the theorem applies: the body runs to the return address, emitting the source's output *)
@@ -1783,7 +2644,7 @@ Example body_lowering_ex :
   exists m', HidV.Sphinx.Halts.runs (Machine.act 2 (code_of sx_prog) (zmem 0)) (mk 0 sx_mem) (map EOut sx_out) (mk sx_ra m').
 Proof.
   destruct sx_exec as [s1 Hx].
-  destruct (body_lowering_correct 2 ltac:(lia) (code_of sx_prog) (zmem 0) (hidc_regs 2 62) 40 2 sx_ext
+  destruct (body_lowering_correct 2 ltac:(lia) (code_of sx_prog) (zmem 0) (hidc_regs 2 62 200) 40 2 sx_ext
               ltac:(intros x; vm_compute; split; [discriminate | reflexivity])
               sx_ss sx_s0 sx_out s1 sx_S sx_st 0 sx_mem ltac:(lia) Hx) as [m' [Rn _]].
   - apply code_at_code_of_app.
@@ -1793,7 +2654,7 @@ Proof.
   - apply sx_rep.
   - apply sx_scoped.
   - vm_compute. intro; discriminate.
-  - exists m'. replace (Machine.lw 2 sx_mem (LowerBoolProofs.FP 2 (hidc_regs 2 62) sx_mem - 2)) with sx_ra in Rn by (vm_compute; reflexivity).
+  - exists m'. replace (Machine.lw 2 sx_mem (LowerBoolProofs.FP 2 (hidc_regs 2 62 200) sx_mem - 2)) with sx_ra in Rn by (vm_compute; reflexivity).
     exact Rn.
 Qed.
 
@@ -1807,3 +2668,70 @@ Example body_vm_run_ex :
   end.
 Proof. vm_compute. split; reflexivity. Qed.
 End ExamplesS.
+
+(* ---------- a program that prints numbers, with the runtime library in the code ---------- *)
+Section ExamplesLib.
+(* int x = a * 100; writeln(x - 7); write(x > b);   with a = 5, b = 7:  "493\n" then "true" *)
+Definition lx_ss : stmts :=
+  SCons (SDeclI (OArith SMul (OVar 0) (OLit 100)))
+  (SCons (SWriteI true (OArith SSub (OVar 3) (OLit 7)))
+  (SCons (SWriteB false (BCmp SGt (OVar 3) (OVar 1))) SNil)).
+Definition lx_out : list Z := [52; 57; 51; 10; 116; 114; 117; 101].
+Definition lx_code : list aline := fst (lower_body sx_S lx_ss sx_st).
+Definition lx_lib : Z := size lx_code.              (* the library follows the function *)
+Definition lx_regs : regmap := hidc_regs 2 62 lx_lib.
+Definition lx_prog : list instr := resolve lx_regs sx_ext 0 lx_code ++ stdlib_code 2 lx_lib.
+(* the entry return address is all_is_win, the first label of the library *)
+Definition lx_mem : mem :=
+  Machine.sw 2 (Machine.sw 2 (Machine.sw 2 (Machine.sw 2 (Machine.sw 2 ex_zero 2 60) 58 lx_lib) 56 5) 54 7) 52 2.
+
+Example lx_exec : exists s1, execs 2 lx_ss sx_s0 lx_out ONormal s1.
+Proof.
+  destruct (istmts 2 10 lx_ss sx_s0) as [[[e out] s1]|] eqn:E; [|vm_compute in E; discriminate E].
+  exists s1. assert (Ee : e = lx_out /\ out = ONormal) by (vm_compute in E; inversion E; split; reflexivity).
+  destruct Ee as [<- <-]. apply (proj2 (interp_sound 2 10)). exact E.
+Qed.
+Lemma lx_lib_hyps : lib_hyps 2 lx_regs (code_of lx_prog).
+Proof.
+  unfold lib_hyps. repeat split; try reflexivity; try (vm_compute; intro; discriminate).
+  intros k Hk. unfold code_of, lx_prog. cbn [lx_regs hidc_regs a_lib].
+  destruct (Z.ltb_spec (lx_lib + k) 0); [unfold lx_lib in *; pose proof (size_nonneg lx_code); lia|].
+  assert (El : length (resolve lx_regs sx_ext 0 lx_code) = Z.to_nat lx_lib) by (vm_compute; reflexivity).
+  rewrite nth_error_app2 by (rewrite El; unfold lx_lib in *; pose proof (size_nonneg lx_code); lia).
+  rewrite El. f_equal. unfold lx_lib in *. pose proof (size_nonneg lx_code). lia.
+Qed.
+Lemma lx_rep : rep 2 lx_regs 10 sx_S sx_s0 lx_mem.
+Proof.
+  assert (Wfm : wf_mem lx_mem) by (unfold lx_mem; repeat (apply (wf_sw 2); [|lia]); apply wf_ex_zero).
+  constructor; try reflexivity; try (vm_compute; intro; discriminate).
+  - constructor; try exact Wfm; carith.
+  - intros i Hi. destruct i as [|[|[|]]]; cbn in Hi; try lia; vm_compute; reflexivity.
+  - intros j Hj. cbn in Hj. lia.
+Qed.
+Example lib_body_lowering_ex :
+  exists m', HidV.Sphinx.Halts.runs (Machine.act 2 (code_of lx_prog) (zmem 0)) (mk 0 lx_mem) (map EOut lx_out) (mk lx_lib m').
+Proof.
+  destruct lx_exec as [s1 Hx].
+  destruct (body_lowering_correct 2 ltac:(lia) (code_of lx_prog) (zmem 0) lx_regs 10 2 sx_ext
+              ltac:(intros x; vm_compute; split; [discriminate | reflexivity])
+              lx_ss sx_s0 lx_out s1 sx_S sx_st 0 lx_mem ltac:(lia) Hx) as [m' [Rn _]].
+  - apply code_at_code_of_app.
+  - lia.
+  - vm_compute. reflexivity.
+  - apply sx_wf.
+  - apply lx_rep.
+  - cbn. repeat split; try lia; try apply lx_lib_hyps; carith.
+  - vm_compute. intro; discriminate.
+  - exists m'. replace (Machine.lw 2 lx_mem (LowerBoolProofs.FP 2 lx_regs lx_mem - 2)) with lx_lib in Rn by (vm_compute; reflexivity).
+    exact Rn.
+Qed.
+(* end to end on the verified VM: the program prints "493\n" and "true", returns into all_is_win,
+   raises the win flag and is absorbed *)
+Definition lx_bytes : list Z := map (fun a => getb lx_mem (Z.of_nat a)) (seq 0 64).
+Example lib_body_vm_run_ex :
+  match run_program 2 lx_bytes [] lx_prog [] mon_none 5000 with
+  | OAbsorbed evs s _ => firstn 9 evs = map EOut lx_out ++ [EFlag 0]
+  | _ => False
+  end.
+Proof. vm_compute. reflexivity. Qed.
+End ExamplesLib.
